@@ -4,7 +4,7 @@ from fractions import Fraction
 import core
 
 PROP = "C17"
-COUNT = {"quick": 260, "thorough": 3000, "search": 900}
+COUNT = {"quick": 240, "thorough": 3000, "search": 900}
 PARALLEL = True
 RULE = ("four case kinds from one PRNG. mdoc (44%): texts from a grammar - header entries (int / float / negative / text values), 0..3 "
         "titles, ZValue (10% FrameSet) sections with 1..80 images, per image a TiltAngle (distinct, negative and positive, 0..4 decimals; in 12% of the texts also "
@@ -29,16 +29,27 @@ RULE = ("four case kinds from one PRNG. mdoc (44%): texts from a grammar - heade
         "array) and dose (file / array / mdoc) inputs, file and array inputs, voltage / amp_contrast / cs / z_shift / ctf_file_type omitted in ~30% (documented defaults), "
         "10% with a tomogram listed twice (interleaved), STAR output re-read and compared "
         "with the model's table (columns, cells), EM list, sg->em conversion; create_wedge_list_sg called twice with the same arrays. "
+        "ROUND 5: equal tilt angles are generated deliberately (12% of the mdoc texts: plain repeats and other spellings of the same number, -0 / 0; "
+        "plus corpus cases) with a sort followed by index-addressed removals - every ascending arrangement of a tie group is accepted (judge by "
+        "content, step by step on the recorded tables; the model is told the arrangement and checks it with arrangeOk); non-ASCII text values and "
+        "titles; write() with out_path omitted; sections with the same keys in another order (inside, followed by parseMdocX) and with different key "
+        "sets (statement evaluated on the implementation alone); per-tomogram dimension / z-shift FILES (tomo_dim_file_format, z_shift_file_format); "
+        "create_wedge_list_sg(output_file=...) re-read; wedge_list_sg_to_em(write_out=False); total_dose_load of an mdoc without PriorRecordDose. "
+        "Numbers of text files go to the model as TOKENS (parseDecimal); the loaders' numbers are compared EXACTLY with the nearest float32 / float64. "
         "non-trivial = mdoc with >=3 images, >=1 negative tilt, >=1 float and >=1 text cell and >=1 removed image; g2 with a removal in every call; loaders with >=3 rows; wedge "
         "with >=2 tomograms of different lengths; distinct = distinct case content")
 ASSUMPTIONS = ["Python float(s) followed by str() of a decimal with <= 15 significant digits prints the canonical decimal (plain form for 1e-4 <= x < 1e16, "
                "exponent form otherwise) - probed on every run (probe py-float-repr)",
                "numpy float64 str() = Python float repr (TiltAngle column) - probed (probe np-float64-str)",
-               "DataFrame.sort_values on distinct keys = the stable merge sort of the model (ties are not generated)",
-               "numeric results are compared with the numbers of the files within rel. 2e-6 (any float width >= float32; that the one-value-per-line reader uses float32 is a "
-               "translator anchor, one_value_dtype_documented) / 1e-9 (float64 paths)",
-               "mdoc sections all carry the same key list with distinct keys, no '[' line inside a section, section values and TiltAngle in decimal / exponent spelling: the "
-               "complement is named (whyNone) and explicitly outside the quantifier; the judge skips it and counts it",
+               "DataFrame.sort_values returns SOME ascending arrangement (quicksort: no promise inside a group of equal keys). Nothing is assumed about ties: the "
+               "judge accepts every ascending permutation, the model is given the arrangement chosen and verifies it (arrangeOk; theorems sort_as_spec, "
+               "sorted_perm_unique_up_to_ties); without ties the model sorts on its own",
+               "pandas.read_csv / numpy parse a decimal of <= 15 significant digits and magnitude < 1e30 to the correctly rounded double and cast to float32 by rounding "
+               "to nearest (no double-rounding case among decimals of <= 12 digits): the loaders' numbers are compared EXACTLY with `_nearest` (probe nearest-float); "
+               "computed numbers (Angstrom->micron, mean, prior + exposure, STAR re-reads) within RELATIVE bounds derived from the number of roundings (F32, F64, STAR)",
+               "mdoc sections carry distinct keys, no '[' line inside a section, section values and TiltAngle in decimal / exponent spelling, floats of <= 15 significant "
+               "digits: the complement is named (whyNone / long_float). Sections with DIFFERENT KEY SETS and floats of > 15 digits are not described by the model: the "
+               "statement is evaluated on the implementation alone (spec clauses; no model comparison); the other classes are outside the quantifier, skipped and counted",
                "the STAR layer round-trips well-formed tables (property C02): hypothesis StarRoundTrip of wedge_via_file / sg_to_em_via_file; the real file is "
                "re-read on every wedge case and compared with the model's table (columns exactly, cells within 1e-5)",
                "WARP xml and csv inputs of the loaders are outside the model (the dispatch to them is modelled, their readers are not; the whole bodies of tlt_load, "
@@ -67,51 +78,109 @@ def _consts_in(node):
 
 
 # ---- rename-insensitive views of a function (G5) ----------------------------------------------------------------------
-def _locals_of(fn):
-    """names bound inside the function (assignment / for / with / comprehension targets), in source order; parameters are API and
-    keep their names"""
+def _params_of(fn):
     params = {a.arg for a in fn.args.args + fn.args.kwonlyargs + fn.args.posonlyargs}
     if fn.args.vararg:
         params.add(fn.args.vararg.arg)
     if fn.args.kwarg:
         params.add(fn.args.kwarg.arg)
-    order = []
+    return params
+
+
+def _locals_of(fn):
+    """names bound inside the function (assignment / for / with / comprehension targets), in order of their first BINDING occurrence;
+    parameters are API and keep their names. A name that is only ever bound and never read is a discard (`_`, `unused`, `_idx` …): every such
+    occurrence is renamed to `_`, whatever it is called and however many different discards there are (H2)"""
+    params = _params_of(fn)
+    order, loaded = [], set()
 
     class V(ast.NodeVisitor):
         def visit_Name(self, n):
             if isinstance(n.ctx, ast.Store) and n.id not in params and n.id not in order:
                 order.append(n.id)
+            elif isinstance(n.ctx, (ast.Load, ast.Del)):
+                loaded.add(n.id)
 
         def visit_FunctionDef(self, n):
             if n is fn:
                 self.generic_visit(n)
+            else:
+                for m in ast.walk(n):                   # a nested function may read the local (closure)
+                    if isinstance(m, ast.Name) and isinstance(m.ctx, ast.Load):
+                        loaded.add(m.id)
     V().visit(fn)
-    return order
+    return order, loaded
 
 
-def _alpha(fn):
-    """normalised text of the function body: docstring dropped, every local variable renamed to v0, v1, … in order of first binding
-    (a harmless rename of a local leaves the text unchanged; any added / removed / edited statement changes it)"""
+_MESSAGE_CALLS = ("warnings.warn", "print", "logging.info", "logging.warning", "logging.error", "logging.debug", "logger.info", "logger.warning",
+                  "logger.error", "logger.debug")
+
+
+def _normalised(fn):
+    """a copy of the function in which everything a HARMLESS edit may touch is erased (H1, H2): type annotations (argument, return, `x: T = v`
+    becomes `x = v`), docstrings, the text of exception / warning / log messages (`raise E("…")` becomes `raise E`, the arguments of
+    warnings.warn / print / logging calls are dropped), and the names of locals (v0, v1, … by first binding occurrence; discards `_`)"""
     import copy
     fn2 = copy.deepcopy(fn)
-    names = {n: f"v{i}" for i, n in enumerate(_locals_of(fn2))}
+    order, loaded = _locals_of(fn2)
+    names, k = {}, 0
+    for n in order:
+        if n in loaded:
+            names[n] = f"v{k}"
+            k += 1
+        else:
+            names[n] = "_"
 
     class R(ast.NodeTransformer):
         def visit_Name(self, n):
             if n.id in names:
                 return ast.copy_location(ast.Name(id=names[n.id], ctx=n.ctx), n)
             return n
+
+        def visit_arg(self, n):
+            n.annotation = None
+            return n
+
+        def visit_AnnAssign(self, n):
+            self.generic_visit(n)
+            if n.value is None:
+                return None
+            return ast.copy_location(ast.Assign(targets=[n.target], value=n.value, lineno=n.lineno), n)
+
+        def visit_Raise(self, n):
+            self.generic_visit(n)
+            if isinstance(n.exc, ast.Call):
+                n.exc = n.exc.func              # the exception TYPE stays, the message goes
+            return n
+
+        def visit_Call(self, n):
+            self.generic_visit(n)
+            if ast.unparse(n.func) in _MESSAGE_CALLS:
+                n.args, n.keywords = [], []
+            return n
+
+        def visit_FunctionDef(self, n):
+            self.generic_visit(n)
+            n.returns = None
+            if n.body and isinstance(n.body[0], ast.Expr) and isinstance(n.body[0].value, ast.Constant) and isinstance(n.body[0].value.value, str):
+                n.body = n.body[1:] or [ast.Pass()]
+            return n
     fn2 = R().visit(fn2)
-    body = fn2.body
-    if body and isinstance(body[0], ast.Expr) and isinstance(body[0].value, ast.Constant) and isinstance(body[0].value.value, str):
-        body = body[1:]
-    return "\n".join(ast.unparse(st) for st in body)
+    ast.fix_missing_locations(fn2)
+    return fn2
+
+
+def _alpha(fn):
+    """normalised text of the function body (see `_normalised`): a rename of a local, a type hint, a reworded message or docstring leaves the
+    text unchanged; any added / removed / edited statement changes it"""
+    return "\n".join(ast.unparse(st) for st in _normalised(fn).body)
 
 
 def _digest(fn):
     import hashlib
-    sig = ast.unparse(fn.args)
-    return hashlib.sha1((sig + "\n" + _alpha(fn)).encode()).hexdigest()[:16]
+    fn2 = _normalised(fn)
+    sig = ast.unparse(fn2.args)
+    return hashlib.sha1((sig + "\n" + "\n".join(ast.unparse(st) for st in fn2.body)).encode()).hexdigest()[:16]
 
 
 def _inline_assignments(fn):
@@ -121,7 +190,7 @@ def _inline_assignments(fn):
     import copy
     counts = {}
     for n in ast.walk(fn):
-        if isinstance(n, (ast.Assign, ast.AugAssign, ast.For, ast.With, ast.comprehension)):
+        if isinstance(n, (ast.Assign, ast.AugAssign, ast.AnnAssign, ast.For, ast.With, ast.comprehension)):
             tg = n.targets if isinstance(n, ast.Assign) else ([n.target] if hasattr(n, "target") else [])
             for t in tg:
                 for m in ast.walk(t):
@@ -141,6 +210,8 @@ def _inline_assignments(fn):
 
     def walk(stmts):
         for st in stmts:
+            if isinstance(st, ast.AnnAssign) and st.value is not None:          # `x: T = v` is `x = v` (H1)
+                st = ast.copy_location(ast.Assign(targets=[st.target], value=st.value), st)
             if isinstance(st, ast.Assign) and len(st.targets) == 1:
                 val = subst(st.value)
                 t = st.targets[0]
@@ -172,15 +243,15 @@ DOC = dict(prefixes=[("[ZValue", "ZValue"), ("[FrameSet", "FrameSet")], kv=["", 
            s2e=["tomo_num", "tilt_angle", "min", "max"],
            tlt=dict(types=["np.ndarray", "list", "str"], table=[[".mdoc", "mdoc.Mdoc"], [".xml", "get_data_from_warp_xml"]], default="one_value_per_line_read",
                     returns=[["np.ndarray", "input_tlt"], ["list", "np.asarray(input_tlt)"]], sort_files_only=True),
-           dosel=dict(types=["np.ndarray", "list", "str"], table=[[".csv", "pd.read_csv"], [".mdoc", "mdoc.Mdoc"], [".xml", "get_data_from_warp_xml"]],
-                      default="one_value_per_line_read", returns=[["np.ndarray", "input_dose"], ["list", "np.asarray(input_dose)"]]),
+           dosel=dict(types=["np.ndarray", "(list, tuple)", "str"], table=[[".csv", "pd.read_csv"], [".mdoc", "mdoc.Mdoc"], [".xml", "get_data_from_warp_xml"]],
+                      default="one_value_per_line_read", returns=[["np.ndarray", "input_dose"], ["(list, tuple)", "np.asarray(input_dose)"]]),
            defocus=dict(types=["pd.DataFrame", "str"], table=[["gctf", "gctf_read"], ["ctffind4", "ctffind4_read"], ["warp", "warp_ctf_read"]], lowers=True,
                         array_columns=["defocus1", "defocus2", "astigmatism", "phase_shift", "defocus_mean"]),
-           wedge_assign=[["tilt_angle", "ioutils.tlt_load(tlt_file)"],
+           wedge_assign=sorted([["tilt_angle", "ioutils.tlt_load(tlt_file)"],
                          ["defocus", "ioutils.defocus_load(ctf_file,ctf_file_type)['defocus_mean'].values"],
                          ["exposure", "ioutils.total_dose_load(dose_file)"], ["tomo_num", "tomo_id"], ["pixelsize", "pixel_size"],
                          ["['tomo_x','tomo_y','tomo_z']", "np.repeat(ioutils.dimensions_load(tomo_dim).values,ioutils.tlt_load(tlt_file).shape[0],axis=0)"],
-                         ["z_shift", "ioutils.z_shift_load(z_shift).values[0][0]"], ["voltage", "voltage"], ["amp_contrast", "amp_contrast"], ["cs", "cs"]],
+                         ["z_shift", "ioutils.z_shift_load(z_shift).values[0][0]"], ["voltage", "voltage"], ["amp_contrast", "amp_contrast"], ["cs", "cs"]]),
            gctf=dict(columns=["rlnDefocusU", "rlnDefocusV", "rlnDefocusAngle", "rlnPhaseShift"], phase="rlnPhaseShift", lo=0, hi=2),
            dtype="np.float32", reset=["ZValue", True], indices=[True, True],
            defaults=dict(write_removed=False, write_overwrite=False, remove_kept_only=True, sort_reset=False, mdoc_section_id="ZValue",
@@ -196,11 +267,39 @@ DIGEST_FUNCS = [("cryocat/ioutils.py", "tlt_load"), ("cryocat/ioutils.py", "tota
                 ("cryocat/wedgeutils.py", "check_data_consistency"), ("cryocat/wedgeutils.py", "load_wedge_list_sg")]
 
 
+def _strip_annotations(fn):
+    """a copy of the function without type annotations: `x: T = v` becomes `x = v`, `x: T` disappears, argument and return annotations are
+    dropped (H1: adding a type hint is a harmless edit and must not move any anchor)"""
+    import copy
+
+    class R(ast.NodeTransformer):
+        def visit_arg(self, n):
+            n.annotation = None
+            return n
+
+        def visit_AnnAssign(self, n):
+            self.generic_visit(n)
+            if n.value is None:
+                return None
+            return ast.copy_location(ast.Assign(targets=[n.target], value=n.value, lineno=n.lineno), n)
+
+        def visit_FunctionDef(self, n):
+            self.generic_visit(n)
+            n.returns = None
+            return n
+    out = R().visit(copy.deepcopy(fn))
+    ast.fix_missing_locations(out)
+    return out
+
+
 def translate(src):
     M, I, W = "cryocat/mdoc.py", "cryocat/ioutils.py", "cryocat/wedgeutils.py"
 
+    def find(rel, q):
+        return _strip_annotations(src.find(rel, q))
+
     def prefixes():
-        fn = src.find(M, "Mdoc._read_mdoc")
+        fn = find(M, "Mdoc._read_mdoc")
         out = []
         for n in ast.walk(fn):
             if isinstance(n, ast.If) and isinstance(n.test, ast.Call) and ast.unparse(n.test.func) == "line.startswith":
@@ -215,9 +314,9 @@ def translate(src):
     pre = src.anchor("Mdoc._read_mdoc:section prefixes", prefixes) or DOC["prefixes"]
 
     def write_formats():
-        fn = src.find(M, "Mdoc.write")
-        fmts = [c for c in _consts_in(fn) if isinstance(c, str) and "{}" in c and "already exists" not in c]
-        return fmts
+        fn = find(M, "Mdoc.write")
+        in_raise = {id(c) for r in ast.walk(fn) if isinstance(r, ast.Raise) for c in ast.walk(r)}        # message texts are not formats (H1)
+        return [n.value for n in ast.walk(fn) if isinstance(n, ast.Constant) and id(n) not in in_raise and isinstance(n.value, str) and "{}" in n.value]
     fmts = src.anchor("Mdoc.write:format strings", write_formats) or []
 
     def fmt_parts(pred, n):
@@ -231,7 +330,7 @@ def translate(src):
     tit = src.anchor("Mdoc.write:'[{}]\\n'", lambda: fmt_parts(lambda p: p[-1].endswith("\n"), 1)) or DOC["tit"]
 
     def write_cond():
-        fn = src.find(M, "Mdoc.write")
+        fn = find(M, "Mdoc.write")
         for n in ast.walk(fn):
             if isinstance(n, ast.If) and "Removed" in ast.unparse(n.test):
                 import copy
@@ -250,8 +349,39 @@ def translate(src):
     if wc is None:
         wc = True
 
+    def write_skips_nan():
+        """fix C17-fix-1: inside the column loop of `write`, a NaN cell (an image whose section lacked the key) is skipped:
+        `if pd.isna(row[column]): continue` directly before the line is written"""
+        fn = find(M, "Mdoc.write")
+        for n in ast.walk(fn):
+            if isinstance(n, ast.If) and len(n.body) >= 2 and isinstance(n.body[0], ast.If) and not n.orelse:
+                g = n.body[0]
+                if re.fullmatch(r"pd\.isna\((\w+)\[(\w+)\]\)", core.norm_expr(g.test)) and len(g.body) == 1 and isinstance(g.body[0], ast.Continue) and not g.orelse \
+                        and any(isinstance(c, ast.Call) and ast.unparse(c.func).endswith(".write") for c in ast.walk(n.body[1])):
+                    return True
+        raise core.AnchorMissing("Mdoc.write: `if pd.isna(row[column]): continue` before the `key = value` line is written (a NaN cell is printed as `key = nan`)")
+    wsn = src.anchor("Mdoc.write:NaN cells (keys a section did not have) are not written", write_skips_nan)
+    if wsn is None:
+        wsn = True
+
+    def row_frame_object():
+        """fix C17-fix-2: the one-row frame of every section is created with dtype=object, so that a key first met in a LATER section keeps the
+        type `_format_value` gave its value (pandas otherwise infers float64 for the new column: 8 -> 8.0)"""
+        fn = find(M, "Mdoc._parse_images")
+        for n in ast.walk(fn):
+            if isinstance(n, ast.Call) and ast.unparse(n.func) == "pd.concat":
+                inner = [c for c in ast.walk(n) if isinstance(c, ast.Call) and ast.unparse(c.func) == "pd.DataFrame"]
+                if len(inner) == 1 and any(k.arg == "dtype" and ast.unparse(k.value) == "object" for k in inner[0].keywords) \
+                        and any(k.arg == "index" and core.norm_expr(k.value) == "[0]" for k in inner[0].keywords):
+                    return True
+        raise core.AnchorMissing("_parse_images: pd.concat([imgs, pd.DataFrame(img, index=[0], dtype=object)], ...) - without dtype=object a key first met in a "
+                                 "later section is read with an inferred dtype (int -> float)")
+    rfo = src.anchor("Mdoc._parse_images:one-row frames are object-typed (late keys keep their value types)", row_frame_object)
+    if rfo is None:
+        rfo = True
+
     def sort_key():
-        fn = src.find(M, "Mdoc.sort_by_tilt")
+        fn = find(M, "Mdoc.sort_by_tilt")
         for n in ast.walk(fn):
             if isinstance(n, ast.Call) and ast.unparse(n.func).endswith("sort_values"):
                 kw = {k.arg: k.value for k in n.keywords}
@@ -264,7 +394,7 @@ def translate(src):
     sk = src.anchor("Mdoc.sort_by_tilt:sort_values", sort_key) or DOC["sort"]
 
     def tilt_key():
-        fn = src.find(M, "Mdoc._parse_images")
+        fn = find(M, "Mdoc._parse_images")
         for n in ast.walk(fn):
             if isinstance(n, ast.Assign) and ast.unparse(n.value).endswith(".astype(float)"):
                 return n.targets[0].slice.value
@@ -272,7 +402,7 @@ def translate(src):
     tk = src.anchor("Mdoc._parse_images:float column", tilt_key) or DOC["tilt"]
 
     def removed_key():
-        fn = src.find(M, "Mdoc.kept_images")
+        fn = find(M, "Mdoc.kept_images")
         txt = core.norm_expr(fn.body[-1].value)
         if txt == "self.imgs[self.imgs['Removed']==False]":
             return "Removed"
@@ -280,7 +410,7 @@ def translate(src):
     rk = src.anchor("Mdoc.kept_images", removed_key) or DOC["removed"]
 
     def dose_expr():
-        fn = src.find(I, "total_dose_load")
+        fn = find(I, "total_dose_load")
         pat = re.compile(r"mdoc\.Mdoc\(input_dose\)\.get_image_feature\('(\w+)'\)\.values([-+*/])mdoc\.Mdoc\(input_dose\)\.get_image_feature\('(\w+)'\)\.values")
         for tgt, val in _inline_assignments(fn):
             m = pat.fullmatch(val)
@@ -294,7 +424,7 @@ def translate(src):
 
     def factor(fname):
         def f():
-            fn = src.find(I, fname)
+            fn = find(I, fname)
             for n in ast.walk(fn):
                 if isinstance(n, (ast.Assign, ast.AugAssign)) and isinstance(n.value, (ast.BinOp, ast.Constant)):
                     v = n.value
@@ -310,7 +440,7 @@ def translate(src):
     def mean_expr():
         res = []
         for fname in ("gctf_read", "ctffind4_read"):
-            fn = src.find(I, fname)
+            fn = find(I, fname)
             ok = None
             for n in ast.walk(fn):
                 if isinstance(n, ast.Assign) and "defocus_mean" in ast.unparse(n.targets[0]):
@@ -329,7 +459,7 @@ def translate(src):
     md = src.anchor("gctf_read/ctffind4_read:defocus_mean", mean_expr) or DOC["divisor"]
 
     def tlt_default():
-        fn = src.find(I, "tlt_load")
+        fn = find(I, "tlt_load")
         d = fn.args.defaults[-1]
         txt = ast.unparse(fn)
         if not re.search(r"(\w+) = np\.sort\(\1\)", txt):
@@ -340,7 +470,7 @@ def translate(src):
         td = True
 
     def wedge_cols():
-        fn = src.find(W, "create_wedge_list_sg")
+        fn = find(W, "create_wedge_list_sg")
         for n in ast.walk(fn):
             if isinstance(n, ast.Call) and ast.unparse(n.func) == "pd.DataFrame":
                 for k in n.keywords:
@@ -351,7 +481,7 @@ def translate(src):
 
     def wedge_assign():
         """what is assigned to every column of the table, with all local variables inlined (names only parameters and loader calls)"""
-        fn = src.find(W, "create_wedge_list_sg")
+        fn = find(W, "create_wedge_list_sg")
         df = None
         for n in ast.walk(fn):
             if isinstance(n, ast.Assign) and isinstance(n.value, ast.Call) and ast.unparse(n.value.func) == "pd.DataFrame" and isinstance(n.targets[0], ast.Name) \
@@ -364,11 +494,13 @@ def translate(src):
             if tgt.startswith(df + "["):
                 key = tgt[len(df) + 1:-1]
                 out.append([key[1:-1] if key[:1] == "'" and key.count("'") == 2 else key, val])
-        return out
+        # a MAP column -> value: the order in which the columns are filled is not observable (the column order of the result is that of the
+        # `columns=[…]` list, anchored separately); a column assigned twice stays twice (stable sort), which breaks the obligation
+        return sorted(out, key=lambda kv: kv[0])
     wass = src.anchor("create_wedge_list_sg:column assignments (locals inlined)", wedge_assign) or DOC["wedge_assign"]
 
     def em_cols():
-        fn = src.find(W, "create_wedge_list_em_batch")
+        fn = find(W, "create_wedge_list_em_batch")
         for n in ast.walk(fn):
             if isinstance(n, ast.Call) and ast.unparse(n.func) == "pd.DataFrame":
                 for k in n.keywords:
@@ -378,7 +510,7 @@ def translate(src):
     ecols = src.anchor("create_wedge_list_em_batch:columns", em_cols) or DOC["em_cols"]
 
     def em_minmax():
-        fn = src.find(W, "create_wedge_list_em_batch")
+        fn = find(W, "create_wedge_list_em_batch")
         t = _alpha(fn).replace(" ", "")
         # locals in binding order: v0 table, v1 tomograms, v2 list of minima, v3 list of maxima, v4 loop variable, v5 file name, v6 tilts
         ok = "v2.append(np.min(v6))" in t and "v3.append(np.max(v6))" in t and \
@@ -437,7 +569,7 @@ def translate(src):
 
     def loader_dispatch(fname, var):
         def f():
-            fn = src.find(I, fname)
+            fn = find(I, fname)
             ch = _if_chain(fn)
             types = [_isinstance_type(t, var) for t, _ in ch[:-1]]
             if not (ch[-1][1] and isinstance(ch[-1][1][0], ast.Raise)):
@@ -463,7 +595,7 @@ def translate(src):
     dl = src.anchor("total_dose_load:type chain + extension dispatch", loader_dispatch("total_dose_load", "input_dose")) or DOC["dosel"]
 
     def dose_sort_default():
-        fn = src.find(I, "total_dose_load")
+        fn = find(I, "total_dose_load")
         names = [a.arg for a in fn.args.args]
         if "sort_mdoc" not in names:
             raise core.AnchorMissing("total_dose_load: sort_mdoc parameter")
@@ -474,7 +606,7 @@ def translate(src):
         dsd = True
 
     def defocus_dispatch():
-        fn = src.find(I, "defocus_load")
+        fn = find(I, "defocus_load")
         ch = _if_chain(fn)
         types = [_isinstance_type(t, "input_data") for t, _ in ch[:-1]]
         first = [core.norm_expr(st) for st in ch[0][1]]
@@ -519,7 +651,7 @@ def translate(src):
     def star_write_args():
         out = []
         for fname in ("create_wedge_list_sg", "create_wedge_list_sg_batch"):
-            fn = src.find(W, fname)
+            fn = find(W, fname)
             calls = [n for n in ast.walk(fn) if isinstance(n, ast.Call) and ast.unparse(n.func) == "starfileio.Starfile.write"]
             if len(calls) != 1:
                 raise core.AnchorMissing(fname + ": Starfile.write call")
@@ -534,8 +666,44 @@ def translate(src):
         return out[0]
     swa = src.anchor("create_wedge_list_sg(_batch):Starfile.write specifier", star_write_args) or DOC["star"]
 
+    def wedge_write_last():
+        """the STAR file is written when the table is COMPLETE (M-9: a write placed before the voltage / amp_contrast / cs assignments gives a
+        file with NaN constants while the returned table is right): the `if output_file is not None: Starfile.write([df], …)` block is the
+        last statement before `return df`, in both functions"""
+        for fname in ("create_wedge_list_sg", "create_wedge_list_sg_batch"):
+            fn = find(W, fname)
+            idx = [i for i, st in enumerate(fn.body)
+                   if any(isinstance(n, ast.Call) and ast.unparse(n.func) == "starfileio.Starfile.write" for n in ast.walk(st))]
+            if len(idx) != 1:
+                raise core.AnchorMissing(fname + ": exactly one statement with a Starfile.write call")
+            st, later = fn.body[idx[0]], fn.body[idx[0] + 1:]
+            if not (isinstance(st, ast.If) and core.norm_expr(st.test) == "output_fileisnotNone" and len(st.body) == 1 and not st.orelse):
+                raise core.AnchorMissing(fname + ": `if output_file is not None: starfileio.Starfile.write(...)` rewritten: " + ast.unparse(st)[:80])
+            if not (len(later) == 1 and isinstance(later[0], ast.Return)):
+                raise core.AnchorMissing(fname + ": the Starfile.write block is no longer the last statement before the return (statements after it: "
+                                         + "; ".join(ast.unparse(x)[:50] for x in later[:-1]) + ")")
+            call = [n for n in ast.walk(st) if isinstance(n, ast.Call) and ast.unparse(n.func) == "starfileio.Starfile.write"][0]
+            if core.norm_expr(call.args[0]) != "[" + ast.unparse(later[0].value) + "]":
+                raise core.AnchorMissing(fname + ": the table written is not the table returned")
+        return True
+    wwl = src.anchor("create_wedge_list_sg(_batch):the STAR file is written last, from the table that is returned", wedge_write_last)
+    if wwl is None:
+        wwl = True
+
+    def mdoc_open_args():
+        out = []
+        for q in ("Mdoc.write", "Mdoc._read_mdoc"):
+            fn = find(M, q)
+            calls = [n for n in ast.walk(fn) if isinstance(n, ast.Call) and ast.unparse(n.func) == "open"]
+            if len(calls) != 1:
+                raise core.AnchorMissing(q + ": one open(...) call")
+            out.append(",".join([core.norm_expr(a) for a in calls[0].args] + [k.arg + "=" + core.norm_expr(k.value) for k in calls[0].keywords]).replace('"', "'"))
+        return out
+    moa = src.anchor("Mdoc.write / _read_mdoc:open() arguments (no encoding / errors handler: what is written is what is read)", mdoc_open_args) \
+        or ["out_path,'w'", "file_path,'r'"]
+
     def sg2em_groupby():
-        fn = src.find(W, "wedge_list_sg_to_em")
+        fn = find(W, "wedge_list_sg_to_em")
         t = _alpha(fn).replace(" ", "")
         m = re.search(r"(\w+)=load_wedge_list_sg\(input_path\)", t)
         if not m:
@@ -549,7 +717,7 @@ def translate(src):
 
     # ---- hardening pass: new anchors ---------------------------------------------------------------------------------------
     def one_value_dtype():
-        fn = src.find(I, "one_value_per_line_read")
+        fn = find(I, "one_value_per_line_read")
         names = [a.arg for a in fn.args.args]
         d = fn.args.defaults[names.index("data_type") - (len(names) - len(fn.args.defaults))]
         calls = [n for n in ast.walk(fn) if isinstance(n, ast.Call) and ast.unparse(n.func) == "pd.read_csv"]
@@ -559,7 +727,7 @@ def translate(src):
     ovd = src.anchor("one_value_per_line_read:data_type default (float32 is pinned HERE, not in the oracle)", one_value_dtype) or DOC["dtype"]
 
     def gctf_select():
-        fn = src.find(I, "gctf_read")
+        fn = find(I, "gctf_read")
         lists = []
         for n in ast.walk(fn):
             if isinstance(n, ast.Subscript) and isinstance(n.slice, ast.List) and all(isinstance(e, ast.Constant) for e in n.slice.elts):
@@ -586,7 +754,7 @@ def translate(src):
     gs = src.anchor("gctf_read:name-list selection + positional scaling slice", gctf_select) or DOC["gctf"]
 
     def reset_key():
-        fn = src.find(M, "Mdoc.sort_by_tilt")
+        fn = find(M, "Mdoc.sort_by_tilt")
         for n in ast.walk(fn):
             if isinstance(n, ast.If) and ast.unparse(n.test) == "reset_z_value":
                 for st in n.body:
@@ -600,7 +768,7 @@ def translate(src):
     rsk = src.anchor("Mdoc.sort_by_tilt:key written by reset_z_value", reset_key) or DOC["reset"]
 
     def indices_shift():
-        fn = src.find(I, "indices_load")
+        fn = find(I, "indices_load")
         names = [a.arg for a in fn.args.args]
         d = bool(ast.literal_eval(fn.args.defaults[names.index("numbered_from_1") - (len(names) - len(fn.args.defaults))]))
         for st in fn.body:
@@ -614,7 +782,7 @@ def translate(src):
 
     def sig_defaults():
         def dflt(rel, q, name):
-            fn = src.find(rel, q)
+            fn = find(rel, q)
             names = [a.arg for a in fn.args.args]
             return ast.literal_eval(fn.args.defaults[names.index(name) - (len(names) - len(fn.args.defaults))])
         sg, bt = "create_wedge_list_sg", "create_wedge_list_sg_batch"
@@ -629,19 +797,25 @@ def translate(src):
     sd = src.anchor("signature defaults (write, remove_images, sort_by_tilt, defocus_load, create_wedge_list_sg(_batch), mdoc.remove_images)", sig_defaults) or DOC["defaults"]
 
     def batch_lookups():
-        fn = src.find(W, "create_wedge_list_sg_batch")
+        fn = find(W, "create_wedge_list_sg_batch")
         t = _alpha(fn).replace(" ", "")
         d = re.search(r"=(\w+)\.loc\[\1\['tomo_id'\]==(\w+),\['x','y','z'\]\]\.values\[0\]", t)
         z = re.search(r"=(\w+)\.loc\[\1\['tomo_id'\]==(\w+),'z_shift'\]\.values\[0\]", t)
         if not d or not z or d.group(2) != z.group(2) or not re.search(r"for" + d.group(2) + r"in(\w+):", t.replace("\n", "")):
             raise core.AnchorMissing("per-tomogram look-ups table.loc[table['tomo_id'] == t, ...].values[0] rewritten")
+        # M-8: every per-tomogram FILE name (tilts, ctf, dose, dimensions, z-shift) is formed from the LOOP variable
+        for fmt in ("tlt_file_format", "ctf_file_format", "dose_file_format", "tomo_dim_file_format", "z_shift_file_format"):
+            m = re.findall(r"ioutils\.fileformat_replace_pattern\(" + fmt + r",([^,]+),'x',raise_error=False\)", t)
+            if m != [d.group(2)]:
+                raise core.AnchorMissing(f"create_wedge_list_sg_batch: the file named by {fmt} is not that of the tomogram being processed "
+                                         f"(fileformat_replace_pattern({fmt}, {m[0] if m else '?'}, ...))")
         return True
     blk = src.anchor("create_wedge_list_sg_batch:dimensions and z-shift are looked up by tomo_id", batch_lookups)
     if blk is None:
         blk = True
 
     def digests():
-        return [[rel.split("/")[-1] + ":" + q, _digest(src.find(rel, q))] for rel, q in DIGEST_FUNCS]
+        return [[rel.split("/")[-1] + ":" + q, _digest(find(rel, q))] for rel, q in DIGEST_FUNCS]
     dg = src.anchor("normalised whole-body dumps (functions with branches the run never executes / short helpers)", digests) or \
         [[rel.split("/")[-1] + ":" + q, "?"] for rel, q in DIGEST_FUNCS]
 
@@ -720,6 +894,10 @@ def sgDefaults : String × List Rat := ({core.lean_str(sd["sg_ctf_type"])}, [{ra
 def batchDefaults : String × List Rat := ({core.lean_str(sd["batch_ctf_type"])}, [{rat(sd["batch_z_shift"])}, {rat(sd["batch_voltage"])}, {rat(sd["batch_amp"])}, {rat(sd["batch_cs"])}])
 def sgDropsNanColumnsByDefault : Bool := {b(sd["sg_drop_nan"])}
 def batchLooksUpByTomoId : Bool := {b(blk)}
+def wedgeWrittenLast : Bool := {b(wwl)}
+def writeSkipsNan : Bool := {b(wsn)}
+def rowFramesObjectTyped : Bool := {b(rfo)}
+def mdocOpenArgs : List String := {core.lean_str_list(moa)}
 def bodyDigests : List (String × String) := {str_pairs(dg)}
 end CryoCat.Gen.C17
 """
@@ -732,7 +910,7 @@ KEYS = ["MinMaxMean", "StagePosition", "StageZ", "Magnification", "Intensity", "
 HKEYS = ["PixelSpacing", "Voltage", "Version", "ImageFile", "ImageSize", "DataMode", "Montage", "T"]
 TEXTS = ["137.175 367.199", "06-Jun-23  23:19:46", "018_01.mrc", "0 1948 630.934", "SerialEM Version 4.0.20 64-bit,  built Feb 17 2023  20:15:15",
          "-4096 -4096", "10 0", "9.37679e-005 0.5514", "0.023687 3  0.035531 7", "X:\\frames\\a_001.tif", "1e-05", "-0.0733564", "-3", "1.2.3", ".", "nan",
-         "a]b", "x [y]"]
+         "a]b", "x [y]", "5 \u00b5m", "M\u00fcller lab, Z\u00fcrich", "3.5 \u00c5/px"]
 
 
 def _digits(rng, n, first_nonzero=False):
@@ -836,7 +1014,37 @@ def _tilt_texts(rng, n, odd=True):
     return out
 
 
-def _mdoc_text(rng, n_img, allow_exp=True):
+def _respell(rng, t):
+    """another decimal spelling of the same number (strict-model forms only: [-]digits[.digits])"""
+    neg = t.startswith("-")
+    b = t.lstrip("-")
+    if _tilt_fraction(t) == 0 and rng.random() < 0.5:
+        return rng.choice(["0", "-0", "0.0", "-0.0", "00"])        # -0.0 == 0.0: equal keys, different cells
+    if "." in b:
+        b = rng.choice([b + "0", "0" + b, b + "00"]) if not b.startswith(".") else "0" + b
+    else:
+        b = rng.choice([b + ".0", b + ".", "0" + b, b + ".00"])
+    return ("-" if neg else "") + b
+
+
+def _tie_tilts(rng, tilts):
+    """equal tilt angles, deliberately (work-list item 1 of round 5): 1..2 groups of 2..3 images share one angle - as a plain repeat of
+    the text or as another spelling of the same number. `sort_values` (quicksort) leaves such a group in an order of its own choosing;
+    every ascending arrangement satisfies the statement"""
+    n = len(tilts)
+    kinds = []
+    for _ in range(rng.choice([1, 1, 2])):
+        if n < 2:
+            break
+        grp = rng.sample(range(n), min(n, rng.choice([2, 2, 3])))
+        kind = rng.choice(["repeat", "spelling"])
+        for j in grp[1:]:
+            tilts[j] = tilts[grp[0]] if kind == "repeat" else _respell(rng, tilts[grp[0]])
+        kinds.append(kind)
+    return kinds
+
+
+def _mdoc_text(rng, n_img, allow_exp=True, ties=False):
     sid = "FrameSet" if rng.random() < 0.1 else "ZValue"
     lines = []
     hk = rng.sample(HKEYS, rng.randint(0, 5))
@@ -847,7 +1055,8 @@ def _mdoc_text(rng, n_img, allow_exp=True):
     lines.append("")
     for _ in range(rng.randint(0, 3)):
         t = rng.choice(["T = SerialEM: Titan Krios G4 D3946 at MPI BP                06-Jun-23  23:19:47    ",
-                        "T =     Tilt axis angle = 82.9, binning = 1  spot = 5  camera = 1 dosym = 8.0", "T = x", "note [a] b", "", "T = a=b=c"])
+                        "T =     Tilt axis angle = 82.9, binning = 1  spot = 5  camera = 1 dosym = 8.0", "T = x", "note [a] b", "", "T = a=b=c",
+                        "T = dose 3.2 e\u207b/\u00c5\u00b2, defocus -2.5 \u00b5m"])
         lines.append(rng.choice(["", " "]) + "[" + t + "]" + rng.choice(["", " "]))
         lines.append("")
     extra = rng.sample(KEYS, rng.randint(0, 6))
@@ -858,6 +1067,8 @@ def _mdoc_text(rng, n_img, allow_exp=True):
         keys.remove("ExposureDose")
     rng.shuffle(keys)
     tilts = _tilt_texts(rng, n_img, odd=(rng.random() < 0.12))
+    if ties:
+        _tie_tilts(rng, tilts)
     zs = list(range(n_img))
     if rng.random() < 0.2:
         zs = rng.sample(range(0, 3 * n_img + 3), n_img)
@@ -940,8 +1151,15 @@ def _malform(rng, text):
 def gen_mdoc(rng, tier):
     big = rng.random() < (0.08 if tier != "search" else 0.02)
     n_img = rng.randint(20, 80) if big else rng.randint(1, 8 if tier == "search" else 14)
-    text = _mdoc_text(rng, n_img, allow_exp=(rng.random() < 0.08))
+    ties = n_img >= 2 and rng.random() < 0.12
+    text = _mdoc_text(rng, n_img, allow_exp=(rng.random() < 0.08), ties=ties)
     case = dict(kind="mdoc", text=text, steps=_steps(rng, n_img), write_removed=(rng.random() < 0.3))
+    if ties:
+        # a sort first, then index-addressed removals that depend on the order the sort left, then possibly another sort
+        k = rng.randint(0, max(0, n_img - 1))
+        case["steps"] = [dict(k="sort", reset=(rng.random() < 0.25)), dict(k="remove", idxs=sorted(set(rng.sample(range(n_img), min(n_img, rng.randint(1, 3))))), kept_only=True)] \
+            + ([dict(k="sort", reset=False)] if rng.random() < 0.4 else []) + ([dict(k="remove", idxs=[0], kept_only=rng.random() < 0.5)] if n_img >= 5 else [])
+        case["ties"] = True
     # G1: in a share of the calls the keyword is OMITTED so that the library's default is what runs (the expectation then uses the
     # DOCUMENTED default: kept_only=True, reset_z_value=False, removed=False)
     for st in case["steps"]:
@@ -962,7 +1180,8 @@ def gen_mdoc(rng, tier):
     return case
 
 
-ODD_KINDS = ["diff-keys", "diff-keys-first", "dup-header", "dup-body", "dup-body-first", "bracket-in-section", "bracket-no-eq", "z-form", "tilt-outside", "tilt-forms"]
+ODD_KINDS = ["diff-keys", "diff-keys-first", "dup-header", "dup-body", "dup-body-first", "bracket-in-section", "bracket-no-eq", "z-form", "tilt-outside", "tilt-forms",
+             "keys-reordered", "diff-keys", "keys-reordered"]
 
 
 def gen_mdoc_odd(rng, text, n_img):
@@ -980,6 +1199,15 @@ def gen_mdoc_odd(rng, text, n_img):
         del lines[rng.choice(nt(later_body))]
     elif kind == "diff-keys-first" and nt(first_body) and len(sec) >= 2:
         del lines[rng.choice(nt(first_body))]
+    elif kind == "keys-reordered" and len(sec) >= 2:
+        # the SAME keys in another order in a later section (inside the quantifier; pd.concat aligns by column name; parseMdocX follows)
+        j = rng.randrange(1, len(sec))
+        lo, hi = sec[j] + 1, (sec[j + 1] if j + 1 < len(sec) else len(lines))
+        idx = [i for i in range(lo, hi) if lines[i].strip()]
+        vals = [lines[i] for i in idx]
+        rng.shuffle(vals)
+        for i, v in zip(idx, vals):
+            lines[i] = v
     elif kind == "dup-header":
         hk = rng.choice(["PixelSpacing", "Voltage", "Q"])
         lines = [f"{hk} = 1.5", "Other = a b"] + lines[:sec[0]] + [f"{hk} = {rng.choice(['7', 'x y', '2.25'])}"] + lines[sec[0]:]
@@ -1004,9 +1232,9 @@ def gen_mdoc_odd(rng, text, n_img):
                             if x not in used])
             used.add(c)
             lines[i] = "TiltAngle = " + c
-    steps = _steps(rng, n_img) if kind in ("dup-header", "tilt-forms") else []
+    steps = _steps(rng, n_img) if kind in ("dup-header", "tilt-forms", "keys-reordered", "diff-keys", "diff-keys-first") else []
     steps = [st for st in steps if st["k"] != "remove" or all(-n_img <= i < n_img for i in st["idxs"])]
-    return dict(kind="mdoc", text="\n".join(lines), steps=steps, write_removed=False, odd=kind)
+    return dict(kind="mdoc", text="\n".join(lines), steps=steps, write_removed=(rng.random() < 0.3 if kind.startswith(("diff-keys", "keys-")) else False), odd=kind)
 
 
 # ------------------------------------------------------------------ mdoc: implementation adapter
@@ -1040,7 +1268,7 @@ def _exc(e):
     the harness or of a third-party library outside any cryoCAT call is not a finding about cryoCAT)"""
     import traceback
     tb = traceback.extract_tb(e.__traceback__)
-    return {"raise": f"{type(e).__name__}: {str(e)[:200]}", "in_cryocat": any("/cryocat/" in fr.filename for fr in tb)}
+    return {"raise": f"{type(e).__name__}: {str(e)[:200]}", "type": type(e).__name__, "in_cryocat": any("/cryocat/" in fr.filename for fr in tb)}
 
 
 def _try(f):
@@ -1055,6 +1283,26 @@ def _raised(r, clause, detail, kind="spec", **kw):
     if r.get("in_cryocat", True):
         return dict(kind=kind, clause=clause, detail=detail, **kw)
     return dict(kind="corr", clause="harness-or-library-raised", detail=f"{clause}: {detail} (no frame of the traceback is inside /cryocat/)")
+
+
+def _apply_traced(m, steps, trace):
+    """apply the op sequence to the Mdoc object, appending the canonical rows after every step that did not raise; returns the
+    exception observation of the first step that raised, else None"""
+    for st in steps:
+        try:
+            if st["k"] == "sort":
+                if st.get("omit_kw"):
+                    m.sort_by_tilt()
+                else:
+                    m.sort_by_tilt(reset_z_value=st.get("reset", False))
+            elif st.get("omit_kw"):
+                m.remove_images(list(st["idxs"]))
+            else:
+                m.remove_images(list(st["idxs"]), kept_only=st.get("kept_only", True))
+        except Exception as e:
+            return _exc(e)
+        trace.append(_canon_mdoc(m)["rows"])
+    return None
 
 
 def run_mdoc(case):
@@ -1074,22 +1322,10 @@ def run_mdoc(case):
         m.write(p2, overwrite=True, removed=True)
         out["fresh_written"] = open(p2, newline="").read()
         out["fresh_reread"] = _try(lambda: _canon_mdoc(mdoc.Mdoc(p2)))
-        # operation sequence
-        failed = None
-        for st in case.get("steps", []):
-            try:
-                if st["k"] == "sort":
-                    if st.get("omit_kw"):
-                        m.sort_by_tilt()
-                    else:
-                        m.sort_by_tilt(reset_z_value=st.get("reset", False))
-                elif st.get("omit_kw"):
-                    m.remove_images(list(st["idxs"]))
-                else:
-                    m.remove_images(list(st["idxs"]), kept_only=st.get("kept_only", True))
-            except Exception as e:
-                failed = _exc(e)
-                break
+        # operation sequence; the table is recorded after EVERY step (trace): with equal tilt angles the order pandas' quicksort leaves
+        # inside a tie group is the implementation's choice, and a later remove_images(index) refers to it
+        out["trace"] = []
+        failed = _apply_traced(m, case.get("steps", []), out["trace"])
         if failed:
             out["after"] = failed
         else:
@@ -1104,6 +1340,23 @@ def run_mdoc(case):
                 m.write(p3, overwrite=True, removed=case.get("write_removed", False))
             out["written"] = open(p3, newline="").read()
             out["reread"] = _try(lambda: _canon_mdoc(mdoc.Mdoc(p3)))
+        # write() with out_path omitted: the object is written back to the file it was read from (overwrite=True needed; without it the
+        # documented FileExistsError) - on a copy, so that the loaders below still see the original text
+        p4 = os.path.join(td, "d.mdoc")
+        with open(p4, "w", newline="") as f:
+            f.write(case["text"])
+
+        def self_write():
+            m4 = mdoc.Mdoc(p4)
+            refused = None
+            try:
+                m4.write()
+                refused = False
+            except Exception as e:
+                refused = type(e).__name__
+            m4.write(overwrite=True)
+            return dict(refused=refused, text=open(p4, newline="").read(), reread=_try(lambda: _canon_mdoc(mdoc.Mdoc(p4))))
+        out["self_write"] = _try(self_write)
         cols = out["parsed"]["cols"]
         dts = out["dtypes"] = {}
         if "ExposureDose" in cols and "PriorRecordDose" in cols:
@@ -1219,7 +1472,94 @@ def _k1_only(a, b):
 
 
 def _frac_cell(c):
-    return Fraction(c[1]) if c[0] in ("i", "f") else None
+    try:
+        return Fraction(c[1]) if c[0] in ("i", "f") else None
+    except (ValueError, OverflowError):
+        return None
+
+
+def _is_nan_cell(c):
+    return c[0] == "f" and c[1] == "nan"
+
+
+def _same_images(a, b, ignore_flags=False):
+    """two canonical objects whose sections may carry different key sets: same header entries, titles, section id, and image by image the same
+    section value and the same ENTRIES key -> value (a NaN cell = the image has no such key). The column LIST is not compared: it is derived
+    from the first section of whatever file is read (a column whose only entries belonged to images that were not written is gone, rightly)"""
+    if "raise" in a or "raise" in b:
+        return "raised: " + str(a.get("raise") or b.get("raise"))
+    for k in ("info", "titles", "sid"):
+        if a[k] != b[k]:
+            return f"{k}: {a[k]} became {b[k]}"
+    if len(a["rows"]) != len(b["rows"]):
+        return f"{len(a['rows'])} images became {len(b['rows'])}"
+    for n, (x, y) in enumerate(zip(a["rows"], b["rows"])):
+        if x["z"] != y["z"]:
+            return f"image {n}: section value {x['z']} became {y['z']}"
+        ex = {c: v for c, v in zip(a["cols"], x["cells"]) if not _is_nan_cell(v)}
+        ey = {c: v for c, v in zip(b["cols"], y["cells"]) if not _is_nan_cell(v)}
+        if ex != ey:
+            k = sorted(set(ex) ^ set(ey)) or [c for c in ex if ex[c] != ey[c]]
+            return f"image {n}: entries {[(c, ex.get(c)) for c in k[:3]]} became {[(c, ey.get(c)) for c in k[:3]]}"
+        if not ignore_flags and x["removed"] != y["removed"]:
+            return f"image {n}: Removed {x['removed']} became {y['removed']}"
+    return None
+
+
+def _judge_written(case, obs, A, same=None):
+    """SPEC: the written file omits exactly the removed images, and re-reads to the header and table of the images written"""
+    same = same or _same_object
+    out = []
+    wr = bool(case.get("write_removed", False))        # None = keyword omitted = the documented default False
+    want = [r for r in A["rows"] if wr or r["removed"] == ["b", False]]
+    nsec = sum(1 for l in obs["written"].split("\n") if l.startswith("[" + A["sid"]))
+    R = obs["reread"]
+    if nsec != len(want):
+        out.append(dict(kind="spec", clause="written-omits-removed", detail=f"{nsec} sections written, {len(want)} images are to be written"))
+    elif not want:
+        # EVERY image is removed: the file cryoCAT writes has a header and no section, and Mdoc(path) cannot read it back (open known finding
+        # C17-K4: `_read_mdoc` takes the section id and the columns from the first section; UnboundLocalError without one)
+        if "raise" in R:
+            out.append(_raised(R, "written-omits-removed", "all images are removed: the written file (header only, no section) cannot be re-read: " + R["raise"],
+                               all_removed=(R.get("type") == "UnboundLocalError")))
+        elif R["rows"] or R["info"] != A["info"] or R["titles"] != A["titles"]:
+            out.append(dict(kind="spec", clause="written-omits-removed", detail="all images are removed, yet the re-read of the written file has images or another header"))
+    elif "raise" in R:
+        out.append(_raised(R, "written-omits-removed", "written file cannot be re-read: " + R["raise"]))
+    else:
+        W = dict(A, rows=want)
+        d = same(W, R, ignore_flags=True)
+        if d and not _k1_only(W, R):   # K1-only differences are reported once, by the round-trip clause
+            out.append(dict(kind="spec", clause="written-omits-removed", detail="re-read of the written file: " + d))
+    return out
+
+
+def _judge_mdoc_impl_only(case, obs):
+    """a text whose sections carry DIFFERENT KEY SETS (pandas fills the missing cells with NaN): the model does not describe the reading of this
+    class (dtype inference of `pd.concat` for late columns), but the statement does not exclude it - "an mdoc written by cryoCAT re-reads to the
+    same header entries and the same per-image table", sorting / removing change only order / flag, the written file omits exactly the removed
+    images. These clauses are evaluated on the IMPLEMENTATION ALONE (spec; no model comparison). Before fix C17-fix-1 `write` printed a NaN
+    cell as `key = nan`, re-read as the text 'nan'."""
+    out = []
+    P = obs["parsed"]
+    d = _same_images(P, obs["fresh_reread"])
+    if d:
+        out.append(dict(kind="spec", clause="mdoc-roundtrip", detail="sections with different key sets; after write + re-read: " + d, k1=_k1_only(P, obs["fresh_reread"])))
+    sw = obs.get("self_write")
+    if isinstance(sw, dict) and "raise" not in sw:
+        d = _same_images(P, sw["reread"])
+        if d and not _k1_only(P, sw["reread"]):
+            out.append(dict(kind="spec", clause="mdoc-roundtrip", detail="after write(overwrite=True) [out_path omitted] + re-read: " + d))
+    A = obs["after"]
+    if "raise" in A:
+        return out
+    rp = _replay(P, case["steps"], obs.get("trace", []))
+    out += rp["findings"]
+    for k in ("info", "titles", "sid", "cols"):      # the operations themselves do not touch the column list
+        if A[k] != P[k]:
+            out.append(dict(kind="spec", clause="ops-change-header", detail=k))
+    out += _judge_written(case, obs, A, _same_images)
+    return out
 
 
 def judge_mdoc(case, obs, resp):
@@ -1237,7 +1577,13 @@ def judge_mdoc(case, obs, resp):
                 out.append(dict(kind="corr", clause="malformed-accepted", detail=f"{case.get('malformed') or case.get('odd')}: reader accepted, the model says the code raises"))
             elif not obs["parsed"].get("in_cryocat", True):
                 out.append(_raised(obs["parsed"], "reader-raises", obs["parsed"]["raise"]))
+        elif why == "different-key-sets" and "raise" not in obs["parsed"] and "TiltAngle" in obs["parsed"]["cols"]:
+            out += _judge_mdoc_impl_only(case, obs)
         return out
+    if mod.get("long_float") and "raise" not in obs["parsed"] and not case.get("malformed"):
+        # a float with more than 15 significant digits: outside the model's recorded assumption on repr(float) (the model keeps the file's digits,
+        # Python the nearest double); a NAMED class the model does not describe - the statement is evaluated on the implementation alone
+        return _judge_mdoc_impl_only(case, obs)
     if case.get("malformed"):
         if "raise" in obs["parsed"]:
             out.append(dict(kind="corr", clause="malformed-model-accepts", detail=f"{case['malformed']}: reader raised {obs['parsed']['raise']}, model accepts"))
@@ -1265,6 +1611,21 @@ def judge_mdoc(case, obs, resp):
         out.append(dict(kind="corr", clause="reread-vs-model", detail=d))
     if strict and mod["parsed"] is not None and bool(mod.get("text_ok")) != bool(mod.get("wf")):
         out.append(dict(kind="corr", clause="text_class_exact-contradicted", detail=f"the model reads the text, textOk={mod.get('text_ok')} but wfb={mod.get('wf')}"))
+    if mod.get("tilt_ties") is not None and bool(mod["tilt_ties"]) != _has_ties(P):
+        out.append(dict(kind="corr", clause="tilt-ties-vs-model", detail=f"model sees equal tilt angles: {mod['tilt_ties']}, the table read: {_has_ties(P)}"))
+    # (2b) write() with the path omitted writes back to the file read (all images: none is removed yet, removed=False is the default)
+    sw = obs.get("self_write")
+    if isinstance(sw, dict):
+        if "raise" in sw:
+            out.append(_raised(sw, "mdoc-roundtrip", "write(overwrite=True) without out_path: " + sw["raise"]))
+        else:
+            if sw["refused"] != "FileExistsError":
+                out.append(dict(kind="corr", clause="write-overwrite-refusal", detail=f"write() onto the existing input file without overwrite=True: {sw['refused']} (documented: FileExistsError)"))
+            d = _same_object(P, sw["reread"])
+            if d and not _k1_only(P, sw["reread"]):
+                out.append(dict(kind="spec", clause="mdoc-roundtrip", detail="after write(overwrite=True) [out_path omitted: back to the file read] + re-read: " + d))
+            if mod["fresh_written"] is not None and sw["text"] != "".join(l + "\n" for l in mod["fresh_written"]):
+                out.append(dict(kind="corr", clause="written-text-vs-model", detail="write() without out_path: " + _first_line_diff(sw["text"], mod["fresh_written"])))
     # (3) operations
     A = obs["after"]
     if "raise" in A:
@@ -1277,49 +1638,16 @@ def judge_mdoc(case, obs, resp):
             d = _mdoc_eq(A, mod["after"])
             if d:
                 out.append(dict(kind="corr", clause="ops-vs-model", detail=d))
-        resets = any(s["k"] == "sort" and s.get("reset") for s in case["steps"])
-        # SPEC: only the order or the removed flag changes
-        # regression of fix 6061ac6 (formerly C17-K3): reset_z_value=True on an object whose section column is not "ZValue": the old code added a column ZValue = k to the
-        # table (one more entry in every image, written as `ZValue = k` inside every section) - reported ONCE, under its own clause, and the
-        # column is then set aside so that the remaining clauses are still judged
-        if resets and P["sid"] != "ZValue" and A["cols"] == P["cols"] + ["ZValue"] and all(len(r["cells"]) == len(P["cols"]) + 1 for r in A["rows"]):
-            out.append(dict(kind="spec", clause="sort-reset-adds-entry",
-                            detail=f"sort_by_tilt(reset_z_value=True) on a {P['sid']} mdoc: sorting must change only the order, but every image gained an entry "
-                                   f"'ZValue = k' (columns {P['cols']} became {A['cols']}) while the {P['sid']} values were not renumbered"))
-            A = dict(A, cols=A["cols"][:-1], rows=[dict(r, cells=r["cells"][:-1]) for r in A["rows"]])
-        byl = {r["label"]: r for r in P["rows"]}
-        if sorted(r["label"] for r in A["rows"]) != sorted(byl):
-            out.append(dict(kind="spec", clause="ops-change-row-set", detail="row labels changed"))
-        else:
-            for r in A["rows"]:
-                o = byl[r["label"]]
-                if r["cells"] != o["cells"] or (not resets and r["z"] != o["z"]):
-                    out.append(dict(kind="spec", clause="ops-change-cells", detail=f"image with label {r['label']}: {o} became {r}")); break
-            for k in ("info", "titles", "sid", "cols"):
-                if A[k] != P[k]:
-                    out.append(dict(kind="spec", clause="ops-change-header", detail=k))
-        # SPEC: flags are exactly the ones the index semantics demand (independent evaluation on labels)
-        exp_removed, order = _expected_flags(P, case["steps"])
-        got_removed = {r["label"] for r in A["rows"] if r["removed"] == ["b", True]}
-        if exp_removed is not None and got_removed != exp_removed:
-            out.append(dict(kind="spec", clause="removed-flags", detail=f"removed labels {sorted(got_removed)}, the index subset demands {sorted(exp_removed)}"))
-        if order is not None and [r["label"] for r in A["rows"]] != order:
-            out.append(dict(kind="spec", clause="sort-order", detail=f"row order {[r['label'] for r in A['rows']]}, ascending tilt demands {order}"))
-        # SPEC: the written file omits exactly the removed images
-        wr = bool(case.get("write_removed", False))        # None = keyword omitted = the documented default False
-        want = [r for r in A["rows"] if wr or r["removed"] == ["b", False]]
-        nsec = sum(1 for l in obs["written"].split("\n") if l.startswith("[" + A["sid"]))
-        if nsec != len(want):
-            out.append(dict(kind="spec", clause="written-omits-removed", detail=f"{nsec} sections written, {len(want)} images are to be written"))
-        elif want:
-            R = obs["reread"]
-            if "raise" in R:
-                out.append(_raised(R, "written-omits-removed", "written file cannot be re-read: " + R["raise"]))
-            else:
-                W = dict(obs["after"], rows=[r for r in obs["after"]["rows"] if wr or r["removed"] == ["b", False]])
-                d = _same_object(W, R, ignore_flags=True)
-                if d and not _k1_only(W, R):   # K1-only differences are reported once, by the round-trip clause
-                    out.append(dict(kind="spec", clause="written-omits-removed", detail="re-read of the written file: " + d))
+        # SPEC: only the order or the removed flag changes; the flags are exactly the ones the index semantics demand; the order after a sort is
+        # ascending in the tilt angle (any arrangement of equal angles) - evaluated step by step on the observed tables, rows identified by content
+        rp = _replay(P, case["steps"], obs.get("trace", []))
+        out += rp["findings"]
+        if any(f["clause"] == "sort-reset-adds-entry" for f in rp["findings"]):
+            A = dict(A, cols=A["cols"][:len(P["cols"])], rows=[dict(r, cells=r["cells"][:len(P["cols"])]) for r in A["rows"]])
+        for k in ("info", "titles", "sid", "cols"):
+            if A[k] != P[k]:
+                out.append(dict(kind="spec", clause="ops-change-header", detail=k))
+        out += _judge_written(case, obs, A)
         if mod["written"] is not None and obs["written"] != "".join(l + "\n" for l in mod["written"]):
             out.append(dict(kind="corr", clause="ops-written-text-vs-model", detail=_first_line_diff(obs["written"], mod["written"])))
     # (4) loaders on the mdoc
@@ -1339,6 +1667,7 @@ def judge_mdoc(case, obs, resp):
     if "dose" in obs:
         ei, pi = P["cols"].index("ExposureDose"), P["cols"].index("PriorRecordDose")
         srt = sorted(P["rows"], key=lambda r: Fraction(r["cells"][ti][1]))
+        keys = [Fraction(r["cells"][ti][1]) for r in srt]
         want = [(_frac_cell(r["cells"][ei]), _frac_cell(r["cells"][pi])) for r in srt]
         got = obs["dose"]
         if isinstance(got, dict):
@@ -1347,14 +1676,34 @@ def judge_mdoc(case, obs, resp):
             elif mod["dose"] is not None:
                 out.append(dict(kind="corr", clause="mdoc-dose", detail="implementation raises, model does not"))
         else:
-            for n, (g, (a, b)) in enumerate(zip(got, want)):
-                if g[0] not in ("i", "f"):
-                    out.append(dict(kind="spec", clause="mdoc-dose", detail=f"image {n} in tilt order: the dose comes back as {g}, not a number")); break
-                if a is None or b is None or abs(Fraction(g[1]) - (a + b)) > Fraction(1, 10 ** 9) * max(1, abs(a + b)):
-                    out.append(dict(kind="spec", clause="mdoc-dose", detail=f"image {n} in tilt order: dose {g[1]}, prior + exposure = {b} + {a}")); break
-            if mod["dose"] is None or len(mod["dose"]) != len(got) or any(g[0] not in ("i", "f") for g in got) or any(
-                    abs(Fraction(g[1]) - Fraction(a, b)) > Fraction(1, 10 ** 9) * max(1, abs(Fraction(a, b))) for g, (a, b) in zip(got, mod["dose"])):
-                out.append(dict(kind="corr", clause="mdoc-dose-vs-model", detail=f"{got[:4]} vs {mod['dose'] and mod['dose'][:4]}"))
+            # images with EQUAL tilt angles may come in any order (the loader sorts with pandas' quicksort; the statement fixes the order by the
+            # angle only): inside a group of equal angles the doses are compared as multisets (theorem sorted_perm_unique_up_to_ties, part 2 with f = the dose)
+            tol = lambda x: F64 * abs(x)            # a + b in float64, both non-negative: relative, see the derivation at F64
+            bad = None
+            if len(got) != len(want):
+                bad = f"{len(got)} doses for {len(want)} images"
+            elif any(g[0] not in ("i", "f") for g in got):
+                n = next(n for n, g in enumerate(got) if g[0] not in ("i", "f"))
+                bad = f"image {n} in tilt order: the dose comes back as {got[n]}, not a number"
+            elif any(a is None or b is None for a, b in want):
+                bad = "ExposureDose / PriorRecordDose of an image is not a number, yet a dose is returned"
+            else:
+                n = 0
+                for gg, ww in zip(_tie_groups(keys, [Fraction(g[1]) for g in got]), _tie_groups(keys, [a + b for a, b in want])):
+                    for g, w in zip(sorted(gg), sorted(ww)):
+                        if abs(g - w) > tol(w) and bad is None:
+                            bad = (f"image(s) {n}..{n + len(ww) - 1} in tilt order (tilt {float(keys[n])}): dose(s) {[float(x) for x in sorted(gg)]}, "
+                                   f"prior + exposure = {[float(x) for x in sorted(ww)]}")
+                    n += len(ww)
+            if bad:
+                out.append(dict(kind="spec", clause="mdoc-dose", detail=bad))
+            md = mod["dose"]
+            ok = md is not None and len(md) == len(got) and all(g[0] in ("i", "f") for g in got)
+            if ok:
+                for gg, mm in zip(_tie_groups(keys, [Fraction(g[1]) for g in got]), _tie_groups(keys, [Fraction(a, b) for a, b in md])):
+                    ok = ok and all(abs(g - m) <= tol(m) for g, m in zip(sorted(gg), sorted(mm)))
+            if not ok:
+                out.append(dict(kind="corr", clause="mdoc-dose-vs-model", detail=f"{got[:4]} vs {md and md[:4]}"))
     return out
 
 
@@ -1370,32 +1719,181 @@ def _first_line_diff(text, lines):
     return f"file has {len(a)} lines, model prints {len(lines)}"
 
 
-def _expected_flags(P, steps):
-    """independent evaluation of the op sequence on row labels: returns (set of removed labels, expected order) or (None, None) if an index is
-    out of range"""
+def _tilt_of(row, ti):
+    try:
+        return Fraction(row["cells"][ti][1])
+    except (ValueError, ZeroDivisionError, OverflowError):
+        return None         # nan / inf: class tilt-form, outside the quantifier
+
+
+def _content(r, with_z):
+    return (tuple(tuple(c) for c in r["cells"]), (tuple(r["z"]) if with_z else None), tuple(r["removed"]))
+
+
+def _bare(rows, ncol=None):
+    return [dict(z=r["z"], cells=(r["cells"] if ncol is None else r["cells"][:ncol]), removed=r["removed"]) for r in rows]
+
+
+def _step_kw(st):
+    """(kept_only, zero-based indices) of a remove step; an omitted keyword / the console-level call means the documented default"""
+    kept_only = True if st.get("omit_kw") or "from1" in st else st.get("kept_only", True)
+    idxs = [i - 1 for i in st["idxs"]] if st.get("from1") else list(st["idxs"])
+    return kept_only, idxs
+
+
+def _has_ties(P):
+    if "rows" not in P or "TiltAngle" not in P.get("cols", []):
+        return False
     ti = P["cols"].index("TiltAngle")
-    order = [r["label"] for r in P["rows"]]
-    tilt = {r["label"]: Fraction(r["cells"][ti][1]) for r in P["rows"]}
-    removed = set()
-    for st in steps:
-        if st["k"] == "sort":
-            order = sorted(order, key=lambda l: tilt[l])
+    tl = [_tilt_of(r, ti) for r in P["rows"]]
+    return None not in tl and len(set(tl)) < len(tl)
+
+
+def _replay(P, steps, trace, what=""):
+    """The statement - "sorting by tilt and removing images change only the order or the removed flag" - evaluated STEP BY STEP on the tables
+    the implementation went through (independent of the model). Rows are identified by their CONTENT (section value, cells, flag), never by
+    the DataFrame index label (of which the statement says nothing: `sort_values(ignore_index=True)` is a harmless edit). A sort step is right
+    when the new table is a rearrangement of the old rows that is ascending in the tilt angle - ANY such rearrangement: pandas' quicksort
+    promises no order inside a group of equal angles, and neither does the statement. A remove step is right when nothing but flags changed and
+    the flags are the ones Python indexing into the kept (kept_only) / all images of the CURRENT table order demands.
+    Returns dict(findings, orders, raise_expected): orders[k] = for sort step k the position in the previous table of every row of the new one
+    (None for other steps / when the rows cannot be matched); raise_expected = whether the step at which the trace ends must raise
+    (an index out of range), None when every step has a trace entry."""
+    ti = P["cols"].index("TiltAngle")
+    ncol = len(P["cols"])
+    prev = _bare(P["rows"])
+    finds, orders, extra = [], [], False
+    res = dict(findings=finds, orders=orders, raise_expected=None)
+    for k, st in enumerate(steps):
+        if st["k"] != "sort":
+            kept_only, idxs = _step_kw(st)
+            pool = [i for i, r in enumerate(prev) if r["removed"] == ["b", False]] if kept_only else list(range(len(prev)))
+            in_range = all(-len(pool) <= i < len(pool) for i in idxs)
+        if k >= len(trace):
+            res["raise_expected"] = (st["k"] != "sort" and not in_range)
+            return res
+        cur = trace[k]
+        if extra or (st["k"] == "sort" and st.get("reset") and P["sid"] != "ZValue" and cur and all(len(r["cells"]) == ncol + 1 for r in cur)):
+            # regression of fix 6061ac6 (formerly C17-K3): reset_z_value=True on a FrameSet mdoc added a column ZValue = k to the table (one more
+            # entry in every image) - reported ONCE, under its own clause; the column is then set aside so that the other clauses are still judged
+            if not extra:
+                finds.append(dict(kind="spec", clause="sort-reset-adds-entry",
+                                  detail=f"{what}sort_by_tilt(reset_z_value=True) on a {P['sid']} mdoc: sorting must change only the order, but every image gained an "
+                                         f"entry 'ZValue = k' ({ncol} columns became {ncol + 1}) while the {P['sid']} values were not renumbered"))
+                extra = True
+            cur = _bare(cur, ncol)
         else:
-            kept_only = True if st.get("omit_kw") or "from1" in st else st.get("kept_only", True)      # documented default
-            idxs = [i - 1 for i in st["idxs"]] if st.get("from1") else st["idxs"]
-            pool = [l for l in order if l not in removed] if kept_only else list(order)
+            cur = _bare(cur)
+        if st["k"] == "sort":
+            reset = bool(st.get("reset"))
+            pool = {}
+            for i, r in enumerate(prev):
+                pool.setdefault(_content(r, not reset), []).append(i)
+            order, bad = [], None
+            for r in cur:
+                q = pool.get(_content(r, not reset))
+                if not q:
+                    bad = r
+                    break
+                order.append(q.pop(0))
+            if bad is not None or len(cur) != len(prev):
+                finds.append(dict(kind="spec", clause="ops-change-cells",
+                                  detail=f"{what}step {k + 1} (sort_by_tilt): the table is no rearrangement of the rows it had before: "
+                                         + (f"{len(prev)} rows became {len(cur)}" if bad is None else f"row {bad} was not there")))
+                orders.append(None)
+                return res
+            tl = [_tilt_of(r, ti) for r in cur]
+            if None not in tl and any(a > b for a, b in zip(tl, tl[1:])):
+                finds.append(dict(kind="spec", clause="sort-order",
+                                  detail=f"{what}step {k + 1}: tilt angles after sort_by_tilt are {[float(x) for x in tl][:12]}{'...' if len(tl) > 12 else ''} - not ascending"))
+            orders.append(order)
+        else:
+            orders.append(None)
+            if not in_range:
+                return res          # the call had to raise (IndexError) and did not: documented Python indexing, judged against the model (corr)
+            if len(cur) != len(prev) or any((a["z"], a["cells"]) != (b["z"], b["cells"]) for a, b in zip(cur, prev)):
+                n = next((j for j, (a, b) in enumerate(zip(cur, prev)) if (a["z"], a["cells"]) != (b["z"], b["cells"])), min(len(cur), len(prev)))
+                finds.append(dict(kind="spec", clause="ops-change-cells",
+                                  detail=f"{what}step {k + 1} (remove_images): something other than a removed flag changed at table position {n}"))
+                return res
+            exp = [r["removed"] == ["b", True] for r in prev]
             for i in idxs:
-                if not (-len(pool) <= i < len(pool)):
-                    return None, None
-            for i in idxs:
-                removed.add(pool[i])
-    return removed, order
+                exp[pool[i]] = True
+            got = [r["removed"] == ["b", True] for r in cur]
+            if got != exp:
+                finds.append(dict(kind="spec", clause="removed-flags",
+                                  detail=f"{what}step {k + 1}: after remove_images({idxs}, kept_only={kept_only}) the images flagged removed are at table positions "
+                                         f"{[j for j, g in enumerate(got) if g]}, the index subset demands {[j for j, g in enumerate(exp) if g]}"))
+        prev = cur
+    res["final"] = prev
+    return res
+
+
+def _tie_orders(P, steps, trace):
+    """for the driver: the arrangement the implementation chose at every sort step - only when the table holds equal tilt angles (otherwise
+    the model sorts on its own; theorem sorted_perm_unique_up_to_ties: without ties there is exactly one ascending arrangement)"""
+    if not _has_ties(P):
+        return [None] * len(steps)
+    o = _replay(P, steps, trace)["orders"]
+    return o + [None] * (len(steps) - len(o))
+
+
+def _tie_groups(keys, vals):
+    """vals partitioned along the runs of equal (ascending) keys"""
+    out, i = [], 0
+    while i < len(keys):
+        j = i
+        while j < len(keys) and keys[j] == keys[i]:
+            j += 1
+        out.append(vals[i:j])
+        i = j
+    return out
 
 
 # ------------------------------------------------------------------ loaders and wedge lists: generators
 def _rat(s):
+    """a number for the driver. A decimal TOKEN of a text file goes over the wire AS TEXT: the model's `parseDecimal` turns it into the exact
+    rational (round 5: the text -> number step of the loaders is inside the model; theorem parse_print_decimal). Anything else as an exact
+    rational [numerator, denominator]."""
+    if isinstance(s, str):
+        return s
     fr = Fraction(s)
     return [fr.numerator, fr.denominator]
+
+
+def _nearest(fr, p):
+    """the binary floating-point number with a p-bit significand (24: float32, 53: float64) NEAREST to the rational fr, ties to even - by exact
+    integer arithmetic, independent of numpy and of Python's float parser (both are probed against it on every run: probe nearest-float).
+    Normal range only (|fr| between 1e-30 and 1e30 or zero: no subnormals / overflow among generated values). Returned as a Python float (exact)."""
+    fr = Fraction(fr)
+    if fr == 0:
+        return 0.0
+    a = abs(fr)
+    e = a.numerator.bit_length() - a.denominator.bit_length()
+    if Fraction(2) ** e > a:
+        e -= 1                       # now 2^e <= a < 2^(e+1)
+    q = a / Fraction(2) ** (e - p + 1)          # in [2^(p-1), 2^p)
+    n = q.numerator // q.denominator
+    r = q - n
+    if r > Fraction(1, 2) or (r == Fraction(1, 2) and n % 2 == 1):
+        n += 1
+    v = Fraction(n) * Fraction(2) ** (e - p + 1)
+    out = v.numerator / v.denominator           # exact: v has at most p <= 53 significant bits
+    return -out if fr < 0 else out
+
+
+def _is_nearest(x, fr, widths=(24, 53)):
+    """x (repr of a returned number) is EXACTLY the float nearest to fr for one of the float widths (the statement does not name the width;
+    which one the reader uses is a translator anchor: one_value_dtype_documented)"""
+    try:
+        v = float(x)
+    except (TypeError, ValueError):
+        return False
+    return any(v == _nearest(fr, p) for p in widths)
+
+
+def _width(dtype):
+    return (24,) if str(dtype) == "float32" else ((53,) if str(dtype) in ("float64", "list", "ndarray") else (24, 53))
 
 
 def _asc_tilts(rng, n):
@@ -1433,13 +1931,21 @@ def gen_load_in(rng, sub, n):
         if k < 0.12:
             case.update(input=rng.choice(["array", "list", "file"]), vals=[], ext=rng.choice(TLT_EXTS))       # empty input
         elif k < 0.4:
-            case.update(input=rng.choice(["array", "list"]), vals=[f"{rng.uniform(-70, 200):.{rng.randint(0, 3)}f}" for _ in range(n)])
+            case.update(input=rng.choice(["array", "list"] + (["tuple"] if sub == "dose_in" else [])),      # total_dose_load takes a tuple like a list (fix fb2f9e8)
+                        vals=[f"{rng.uniform(-70, 200):.{rng.randint(0, 3)}f}" for _ in range(n)])
         elif k < 0.75:
             case.update(input="file", ext=rng.choice(TLT_EXTS), vals=[f"{rng.uniform(-70, 200):.{rng.randint(0, 3)}f}" for _ in range(n)])
         else:
             tilts = _asc_tilts(rng, n)
             doses = [[f"{rng.uniform(1, 4):.4f}", f"{rng.uniform(0, 150):.3f}"] for _ in range(n)]
-            case.update(input="file", ext=".mdoc", tilts=tilts, doses=doses, text=_mdoc_for_wedge(rng, tilts, doses), stem=rng.choice(["x", "TS_01.mrc", "a.tlt"]))
+            times = None
+            if sub == "dose_in" and rng.random() < 0.35:
+                # an mdoc WITHOUT PriorRecordDose: the dose is ExposureDose x (acquisition rank by DateTime + 1) (documented in total_dose_load; not a
+                # clause of the statement, whose "mdoc dose = prior + exposure dose" needs a prior dose: judged as corr)
+                times = rng.sample(range(0, 3500), n)
+            case.update(input="file", ext=".mdoc", tilts=tilts, doses=doses, text=_mdoc_for_wedge(rng, tilts, doses, times), stem=rng.choice(["x", "TS_01.mrc", "a.tlt"]))
+            if times is not None:
+                case["times"] = times
         return case
     k = rng.random()
     case = dict(kind="load", sub=sub, rows=_ctf_rows(rng, n))
@@ -1474,14 +1980,21 @@ def gen_load(rng, tier):
                 extra_cols=rng.randint(0, 3), col_order=rng.choice(GCTF_ORDERS), perm=rng.sample(range(8), 8))
 
 
-def _mdoc_for_wedge(rng, tilts, doses):
-    """a small well-formed mdoc in acquisition (shuffled) order carrying the given tilts and (exposure, prior) doses"""
+def _mdoc_for_wedge(rng, tilts, doses, times=None):
+    """a small well-formed mdoc in acquisition (shuffled) order carrying the given tilts and (exposure, prior) doses. With `times` (one
+    acquisition time per image, seconds after 23:00:00) the file has NO PriorRecordDose but a DateTime entry: total_dose_load then takes the
+    documented other route, ExposureDose x (rank of the image by DateTime + 1)"""
     order = list(range(len(tilts)))
     rng.shuffle(order)
     lines = ["PixelSpacing = 1.971", "Voltage = 300", "", "[T = SerialEM: generated]", ""]
     for z, j in enumerate(order):
-        lines += [f"[ZValue = {z}]", f"TiltAngle = {tilts[j]}", f"ExposureDose = {doses[j][0]}", f"PriorRecordDose = {doses[j][1]}",
-                  "SubFramePath = X:\\frames\\f_%03d.tif" % z, ""]
+        lines += [f"[ZValue = {z}]", f"TiltAngle = {tilts[j]}", f"ExposureDose = {doses[j][0]}"]
+        if times is None:
+            lines.append(f"PriorRecordDose = {doses[j][1]}")
+        else:
+            t = times[j]
+            lines.append("DateTime = 06-Jun-23  23:%02d:%02d" % (t // 60, t % 60))
+        lines += ["SubFramePath = X:\\frames\\f_%03d.tif" % z, ""]
     return "\n".join(lines) + "\n"
 
 
@@ -1507,8 +2020,9 @@ def gen_wedge(rng, tier):
     case = dict(kind="wedge", tomos=tomos, ctf=ctf, dose=dose, phase=(rng.random() < 0.5),
                 consts=dict(pixel=rng.choice(["1.327", "2.176", "10.8", "1"]), voltage=rng.choice(["300.0", "200.0"]), amp=rng.choice(["0.07", "0.1"]),
                             cs=rng.choice(["2.7", "2.0"])),
-                tomo_list=rng.choice(["array", "file", "list"]), dims_mode=rng.choice(["array", "file", "single"]),
-                z_mode=rng.choice(["array", "file", "scalar"]), tlt_from_mdoc=(dose == "mdoc" and rng.random() < 0.5))
+                tomo_list=rng.choice(["array", "file", "list"]), dims_mode=rng.choice(["array", "file", "single", "files"]),
+                z_mode=rng.choice(["array", "file", "scalar", "files"]), tlt_from_mdoc=(dose == "mdoc" and rng.random() < 0.5))
+    # "files": one dimension / z-shift file PER TOMOGRAM, named by tomo_dim_file_format / z_shift_file_format (M-8)
     # audit item 6: tilt FILES in acquisition (unsorted) order - tlt_load re-sorts them, ctf / dose lists stay in file order, the
     # i-th ascending tilt is paired with the i-th defocus / exposure of the files
     if rng.random() < 0.35:
@@ -1546,7 +2060,7 @@ def gen_wedge(rng, tier):
         for tm in tomos:
             tm["z"] = tomos[0]["z"]
     if case["z_mode"] == "array" and rng.random() < 0.12:
-        case["z_int_array"] = True      # integer-valued ndarray of z-shifts (class of C17-K2)
+        case["z_int_array"] = True      # integer-valued ndarray of z-shifts (fixed defect D26, commit e6f42f2)
         for tm in tomos + (case.get("table_extra") or []):
             tm["z"] = str(rng.randint(-50, 50))
     if nt >= 2 and rng.random() < 0.1:
@@ -1664,6 +2178,8 @@ def run_load_in(case):
                 inp = np.array([float(v) for v in case["vals"]], dtype=float)
             elif case["input"] == "list":
                 inp = [float(v) for v in case["vals"]]
+            elif case["input"] == "tuple":
+                inp = tuple(float(v) for v in case["vals"])
             elif case["ext"] == ".mdoc":
                 inp = os.path.join(td, case["stem"] + ".mdoc")
                 open(inp, "w").write(case["text"])
@@ -1784,9 +2300,17 @@ def run_wedge(case):
         elif case["dims_mode"] == "file":
             dims = os.path.join(td, "dims.txt")
             open(dims, "w").write("".join(" ".join(str(x) for x in r) + "\n" for r in dims4))
+        elif case["dims_mode"] == "files":
+            dims = None
+            for tm in tomos:
+                open(os.path.join(td, f"{tm['id']:03d}_dims.txt"), "w").write(" ".join(tm["dims"]) + "\n")
         else:
             dims = [int(x) for x in tomos[0]["dims"]]
-        if case["z_mode"] == "array":
+        if case["z_mode"] == "files":
+            zs = None
+            for tm in tomos:
+                open(os.path.join(td, f"{tm['id']:03d}_zshift.txt"), "w").write(tm["z"] + "\n")
+        elif case["z_mode"] == "array":
             if case.get("z_int_array"):
                 zs = np.array([[tm["id"], int(tm["z"])] for tm in ztab])
             else:
@@ -1802,6 +2326,12 @@ def run_wedge(case):
         for k, name in (("voltage", "voltage"), ("amp", "amp_contrast"), ("cs", "cs"), ("z_shift", "z_shift")):
             if k in omit:
                 del kw[name]
+        if case["dims_mode"] == "files":
+            del kw["tomo_dim"]
+            kw["tomo_dim_file_format"] = os.path.join(td, "$xxx_dims.txt")
+        if case["z_mode"] == "files":
+            kw.pop("z_shift", None)
+            kw["z_shift_file_format"] = os.path.join(td, "$xxx_zshift.txt")
         if case["ctf"]:
             kw["ctf_file_format"] = os.path.join(td, "$xxx_gctf.star" if case["ctf"] == "gctf" else "$xxx_ctffind4.txt")
             if "ctf_file_type" not in omit:
@@ -1818,6 +2348,9 @@ def run_wedge(case):
             out["star"] = _try(lambda: _df_rows(wedgeutils.load_wedge_list_sg(star)))
             out["sg2em"] = _try(lambda: _df_rows(wedgeutils.wedge_list_sg_to_em(star, os.path.join(td, "sg2em.em"))))
             out["sg2em_file"] = _try(lambda: _em_rows(os.path.join(td, "sg2em.em")))
+            nowrite = os.path.join(td, "sg2em_nowrite.em")
+            out["sg2em_nowrite"] = _try(lambda: _df_rows(wedgeutils.wedge_list_sg_to_em(star, nowrite, write_out=False)))
+            out["sg2em_nowrite_file_exists"] = os.path.exists(nowrite)
         except Exception as e:
             out["batch"] = _exc(e)
         out["inputs_changed"] = [k for k, v in inputs_before.items()
@@ -1842,7 +2375,11 @@ def run_wedge(case):
             # G2: the SAME caller-owned arrays / DataFrame go into two calls (two tomogram numbers); they must come back untouched and
             # the second list must be as right as the first
             held = dict(tilts=tilts.copy(), ctf=(None if ctf_in is None else (ctf_in.copy())), dose=(None if dose_in is None else dose_in.copy()))
-            first = _df_rows(wedgeutils.create_wedge_list_sg(tm["id"], [int(x) for x in tm["dims"]], float(c["pixel"]), tilts, **kws))
+            star1 = os.path.join(td, "wedge_single.star")
+            # the dimension triple as a list or (every third case) as a TUPLE: dimensions_load takes every array-like (fix 53a1a4f)
+            dims1 = tuple(int(x) for x in tm["dims"]) if len(tm["tilts"]) % 3 == 0 else [int(x) for x in tm["dims"]]
+            first = _df_rows(wedgeutils.create_wedge_list_sg(tm["id"], dims1, float(c["pixel"]), tilts, output_file=star1, **kws))
+            out["single_star"] = _try(lambda: _df_rows(wedgeutils.load_wedge_list_sg(star1)))
             second = _df_rows(wedgeutils.create_wedge_list_sg(tm["id"] + 1000, [int(x) for x in tm["dims"]], float(c["pixel"]), tilts, **kws))
             changed = []
             if not np.array_equal(held["tilts"], tilts):
@@ -1862,17 +2399,27 @@ def run_wedge(case):
 
 
 # ------------------------------------------------------------------ loaders and wedge lists: the statement, evaluated independently
-F32 = Fraction(2, 10 ** 6)
-F64 = Fraction(1, 10 ** 9)
+# H4 - tolerances follow the arithmetic, and are RELATIVE ONLY (a loader returning 0 for 1e-7 is wrong):
+#  * numbers that are only parsed (tlt / dose files, tilt_angle and exposure columns of a wedge list) are compared EXACTLY with the float nearest
+#    to the decimal (`_is_nearest`), no tolerance at all;
+#  * float32 chains (ctffind4: parse, x 1e-4, +, / 2; EM lists: cast to single): every operation rounds with relative error <= 2^-24, at most
+#    four in a row, all operands of one sign: <= 4 * 2^-24; F32 = 16 * 2^-24 leaves a factor 4;
+#  * float64 chains (gctf: parse, x 1e-4 [the constant itself is rounded], +, / 2; mdoc dose a + b): <= 5 * 2^-53; F64 = 32 * 2^-53;
+#  * numbers re-read from a STAR file (property C02 prints 6 decimals): absolute 5e-7 from the printing on top of the chain: STAR = (F32, 1e-6).
+F32 = Fraction(16, 2 ** 24)
+F64 = Fraction(32, 2 ** 53)
+STAR = (F32, Fraction(1, 10 ** 6))
 DEF_COLS = ["defocus1", "defocus2", "astigmatism", "phase_shift", "defocus_mean"]
 
 
-def _close(x, fr, rel):
+def _close(x, fr, tol):
+    """|x - fr| <= rel * |fr| (+ abs when tol is a pair (rel, abs): values that went through a fixed-decimals text file)"""
+    rel, ab = tol if isinstance(tol, tuple) else (tol, 0)
     try:
-        v = Fraction(x)
-    except (ValueError, OverflowError):
+        v = Fraction(float(x))
+    except (ValueError, OverflowError, TypeError):
         return False
-    return abs(v - fr) <= rel * max(1, abs(fr))
+    return abs(v - fr) <= rel * abs(fr) + ab
 
 
 def _f32(s):
@@ -1906,8 +2453,13 @@ def _tomo_order(case):
 
 
 def _expected_wedge(case, as_given=False):
-    """rows the statement demands (exact rationals), or None when the inputs are inconsistent (the call must refuse). Tilt FILES are
-    loaded ascending (the statement: "angles ascending"); an ARRAY of tilts is used as given (as_given)"""
+    """rows the statement demands (exact rationals), or None when the inputs are inconsistent (the call must refuse).
+    Derivation (round 5, item 6 - this is the STATEMENT's pairing, not a copy of the code): "one row per tilt per tomogram pairing the i-th tilt
+    angle, defocus and exposure" speaks of the tomogram's three lists AS ITS LOADERS RETURN THEM, and the loader clause of the same statement
+    fixes those: tilt angles ASCENDING ("angles ascending": a tilt FILE in acquisition order is re-sorted; an ARRAY is used as given, as_given),
+    defocus rows in file order (one row per line / STAR row), doses in file order (text file) resp. in ascending-tilt order (mdoc dose). So
+    row i = (i-th ascending tilt, i-th defocus row of the file, i-th dose). Whether a user SHOULD hand over an unsorted tilt file next to a
+    ctf file in acquisition order is outside the statement."""
     c = case["consts"]
     rows, em = [], []
     for tm in _tomo_order(case):
@@ -1950,8 +2502,9 @@ def _cmp_table(got, cols, want, rels, what):
         return f"{what}: {len(got['rows'])} rows, expected {len(want)}"
     for n, (g, w) in enumerate(zip(got["rows"], want)):
         for cname, x, y in zip(cols, g, w):
-            if not _close(x, y, rels.get(cname, F32)):
-                return f"{what}: row {n} column {cname} = {x}, the statement demands {float(y)!r}"
+            tol = rels.get(cname, F32)
+            if not (_is_nearest(x, y) if tol == "nearest" else _close(x, y, tol)):
+                return f"{what}: row {n} column {cname} = {x}, the statement demands {float(y)!r}" + (" (the float nearest to the number in the file)" if tol == "nearest" else "")
     return None
 
 
@@ -1975,23 +2528,26 @@ def judge_load_in(case, obs, resp):
     if case["sub"] in ("tlt_in", "dose_in"):
         tlt = case["sub"] == "tlt_in"
         sort = tlt and (case["sort"] is None or case["sort"])
-        if case["input"] in ("array", "list"):
+        if case["input"] in ("array", "list", "tuple"):
             want = [Fraction(v) for v in case["vals"]]            # as given, not sorted
             must_raise = tlt and not want
-            rel = Fraction(0)
+            rel = "nearest"         # the float64 the caller put in (float(text) is correctly rounded)
             reader = None
         elif case["ext"] == ".mdoc":
             order = sorted(range(len(case["tilts"])), key=lambda j: Fraction(case["tilts"][j]))
             if tlt:
                 acq = [Fraction(l.split("=")[1]) for l in case["text"].split("\n") if l.startswith("TiltAngle")]
                 want = sorted(acq) if sort else acq
+            elif case.get("times"):
+                rank = {j: r for r, j in enumerate(sorted(range(len(case["times"])), key=lambda j: case["times"][j]))}
+                want = [Fraction(case["doses"][j][0]) * (rank[j] + 1) for j in order]
             else:
                 want = [Fraction(case["doses"][j][0]) + Fraction(case["doses"][j][1]) for j in order]
-            must_raise, rel, reader = False, F64, "mdoc.Mdoc"
+            must_raise, rel, reader = False, ("nearest" if tlt else F64), "mdoc.Mdoc"      # a tilt is parsed only; a dose is a + b (or a x k) in float64
         else:
             vals = [Fraction(v) for v in case["vals"]]          # the numbers IN the file (any float width the loader uses is within F32)
             want = sorted(vals) if sort else vals
-            must_raise, rel, reader = (not vals), F32, "one_value_per_line_read"
+            must_raise, rel, reader = (not vals), "nearest", "one_value_per_line_read"
         if reader is not None:
             table = [(".mdoc", "mdoc.Mdoc"), (".xml", "get_data_from_warp_xml")]
             if not tlt:
@@ -2016,14 +2572,24 @@ def judge_load_in(case, obs, resp):
         for key, dt in obs.get("dtypes", {}).items():
             if not _numeric_dtype(dt):
                 out.append(dict(kind="spec", clause="loader-dtype", detail=f"{case['sub']} {case['input']} {case.get('ext', '')}: returned dtype {dt}, not a numeric one"))
-        if len(got) != len(want) or any(not _close(g, w, rel) for g, w in zip(got, want)):
+        if case.get("times"):
+            # documented route outside the statement (no prior dose in the file): corr, and the model (prior + exposure) has no value here
+            if len(got) != len(want) or any(not _close(g, w, F64) for g, w in zip(got, want)):
+                out.append(dict(kind="corr", clause="mdoc-dose-without-prior", detail=f"returned {got[:6]}, ExposureDose x (DateTime rank + 1) in tilt order is {[float(w) for w in want[:6]]}"))
+            if mod is not None:
+                out.append(dict(kind="corr", clause="mdoc-dose-without-prior-model", detail="the model returns a dose although the file has no PriorRecordDose"))
+            return out
+        ok1 = (lambda g, w: _is_nearest(g, w)) if rel == "nearest" else (lambda g, w: _close(g, w, rel))
+        if len(got) != len(want) or any(not ok1(g, w) for g, w in zip(got, want)):
             out.append(dict(kind="spec", clause="loader-values", detail=f"{case['sub']} {case['input']} {case.get('ext', '')} sort={case['sort']}: returned {got[:6]}, "
                                                                          f"the input holds {[float(w) for w in want[:6]]}"))
         if mod is None:
             out.append(dict(kind="corr", clause="loader-model-refuses", detail=f"{case['sub']} {case['input']} {case.get('ext', '')}"))
         else:
             m = [Fraction(a, b) for a, b in mod]
-            if len(m) != len(got) or any(not _close(g, x, rel) for g, x in zip(got, m)):
+            wd = _width((obs.get("dtypes") or {}).get("out"))
+            ok2 = (lambda g, w: _is_nearest(g, w, wd)) if rel == "nearest" else (lambda g, w: _close(g, w, rel))
+            if len(m) != len(got) or any(not ok2(g, x) for g, x in zip(got, m)):
                 out.append(dict(kind="corr", clause="loader-vs-model", detail=f"model {[float(x) for x in m[:6]]} / impl {got[:6]}"))
         return out
     # defocus_load
@@ -2058,7 +2624,9 @@ def judge_load_in(case, obs, resp):
         out.append(dict(kind="corr", clause="defocus-dispatch-model", detail=f"file_type {case['file_type']!r}: model reader {resp['reader']}, table says {known.get(ft)}"))
     matches = (ft == "gctf" and case["content"] == "gctf") or (ft == "ctffind4" and case["content"] == "ctffind")
     if ft not in known:
-        if not raised or "not supported" not in got["raise"]:
+        # the refusal is recognised by its TYPE (the documented `Raises: ValueError`) and by the precondition violated (a file_type outside the
+        # dispatch table) - never by the wording of the message (H1)
+        if not raised or got.get("type") != "ValueError":
             out.append(dict(kind="corr", clause="defocus-unknown-type", detail=f"file_type {case['file_type']!r}: {got}"))
         if mod is not None:
             out.append(dict(kind="corr", clause="defocus-unknown-type-model", detail=""))
@@ -2105,28 +2673,31 @@ def judge_load(case, obs, resp):
         if not _numeric_dtype(dt):
             out.append(dict(kind="spec", clause="loader-dtype", detail=f"{case['sub']} {key}: returned dtype {dt}, not a numeric one"))
 
-    def same(got, want, rel):
-        return len(got) == len(want) and all(_close(g, w, rel) for g, w in zip(got, want))
-    # the statement: "loaders return the numbers in their files" - the numbers of the file, within the relative tolerance 2e-6 that any
-    # float width >= float32 meets (that the reader uses float32 is pinned by the translator: one_value_dtype_documented)
+    def same(got, want, widths=(24, 53)):
+        return len(got) == len(want) and all(_is_nearest(g, w, widths) for g, w in zip(got, want))
+    # the statement: "loaders return the numbers in their files": every returned number is EXACTLY the binary float nearest to the decimal in
+    # the file (float32 or float64: the statement does not name the width; that the reader uses float32 is pinned by the translator,
+    # one_value_dtype_documented). The MODEL parses the same tokens itself (parseDecimal): implementation = float nearest to the model's
+    # rational, of the width the returned dtype names.
     exact = [Fraction(v) for v in case.get("vals", [])]
+    dts = obs.get("dtypes", {})
     if case["sub"] == "tlt":
-        if not same(obs["unsorted"], exact, F32):
+        if not same(obs["unsorted"], exact):
             out.append(dict(kind="spec", clause="tlt-values", detail=f"tlt_load(sort_angles=False) = {obs['unsorted'][:6]}, file holds {case['vals'][:6]}"))
-        if not same(obs["sorted"], sorted(exact), F32):
+        if not same(obs["sorted"], sorted(exact)):
             out.append(dict(kind="spec", clause="tlt-ascending", detail=f"tlt_load = {obs['sorted'][:8]}, ascending file values are {[float(x) for x in sorted(exact)[:8]]}"))
-        if not same(obs["array"], exact, Fraction(0)) or not same(obs["list"], exact, F64):
+        if not same(obs["array"], exact, (53,)) or not same(obs["list"], exact, (53,)):
             out.append(dict(kind="spec", clause="tlt-array-input", detail="array / list input is not returned as given"))
         ms = [Fraction(a, b) for a, b in resp["sorted"]]
         mu = [Fraction(a, b) for a, b in resp["unsorted"]]
-        if not same(obs["sorted"], ms, F32) or not same(obs["unsorted"], mu, F32):
-            out.append(dict(kind="corr", clause="tlt-vs-model", detail=f"model sorted {[float(x) for x in ms[:6]]} / impl {obs['sorted'][:6]}"))
+        if not same(obs["sorted"], ms, _width(dts.get("sorted"))) or not same(obs["unsorted"], mu, _width(dts.get("unsorted"))):
+            out.append(dict(kind="corr", clause="tlt-vs-model", detail=f"model (parsed from the tokens) sorted {[float(x) for x in ms[:6]]} / impl {obs['sorted'][:6]}"))
     elif case["sub"] == "dose":
-        if not same(obs["file"], exact, F32):
+        if not same(obs["file"], exact):
             out.append(dict(kind="spec", clause="dose-values", detail=f"total_dose_load = {obs['file'][:6]}, file holds {case['vals'][:6]}"))
-        if not same(obs["array"], exact, Fraction(0)):
+        if not same(obs["array"], exact, (53,)):
             out.append(dict(kind="spec", clause="dose-array-input", detail="array input is not returned as given"))
-        if not same(obs["file"], [Fraction(a, b) for a, b in resp["dose"]], F32):
+        if not same(obs["file"], [Fraction(a, b) for a, b in resp["dose"]], _width(dts.get("file"))):
             out.append(dict(kind="corr", clause="dose-vs-model", detail=""))
     else:
         g = case["sub"] == "gctf"
@@ -2172,22 +2743,25 @@ def judge_wedge(case, obs, resp, resp1=None):
     cols = [WEDGE_COLS[i] for i in keep]
     wrows = [[r[i] for i in keep] for r in want]
     rels = {cname: F64 for cname in WEDGE_COLS}
-    rels.update(tilt_angle=F32, defocus=F32, exposure=(F64 if case["dose"] == "mdoc" else F32))
+    # tilt angles and the doses of a text file are only PARSED: exactly the float nearest to the number in the file; an mdoc dose is a + b in
+    # float64; defocus went through the float32 (ctffind4) or float64 (gctf) chain
+    rels.update(tilt_angle="nearest", defocus=(F32 if case["ctf"] == "ctffind4" else F64), exposure=(F64 if case["dose"] == "mdoc" else "nearest"))
     if "raise" in B:
-        out.append(_raised(B, "wedge-raises", B["raise"],
-                           k2=bool(case.get("z_int_array")) and "Unsupported input type: <class 'numpy.int" in B["raise"]))
+        out.append(_raised(B, "wedge-raises", B["raise"]))
     else:
         d = _cmp_table(B, cols, wrows, rels, "create_wedge_list_sg_batch")
         if d:
             out.append(dict(kind="spec", clause="wedge-rows", detail=d))
         if not obs.get("index_ok", True):
             out.append(dict(kind="spec", clause="wedge-index", detail="row index of the batch table is not 0..n-1"))
-        loose = {cname: Fraction(1, 10 ** 5) for cname in WEDGE_COLS}
+        loose = {cname: STAR for cname in WEDGE_COLS}
         d = _cmp_table(obs["star"], cols, wrows, loose, "wedge list STAR file re-read")
         if d:
             out.append(dict(kind="spec", clause="wedge-star-file", detail=d))
         merged = _merge_em(em)
-        for key in ("sg2em", "sg2em_file"):
+        if obs.get("sg2em_nowrite_file_exists"):
+            out.append(dict(kind="corr", clause="wedge-sg-to-em-write-out", detail="wedge_list_sg_to_em(..., write_out=False) wrote the EM file"))
+        for key in ("sg2em", "sg2em_file", "sg2em_nowrite"):
             d = _cmp_table(obs[key], ["tomo_id", "min_tilt_angle", "max_tilt_angle"], merged, {"tomo_id": F64, "min_tilt_angle": loose["cs"], "max_tilt_angle": loose["cs"]}, f"wedge_list_sg_to_em {key}")
             if d:
                 out.append(dict(kind="spec", clause="wedge-sg-to-em", detail=d)); break
@@ -2199,11 +2773,17 @@ def judge_wedge(case, obs, resp, resp1=None):
         if w1 is not None:
             keep1 = [i for i, cname in enumerate(WEDGE_COLS) if (cname != "defocus" or has_ctf) and (cname != "exposure" or "dose" in tm)]
             cols1 = [WEDGE_COLS[i] for i in keep1]
-            rels1 = dict(rels, tilt_angle=F64, exposure=F64)
+            rels1 = dict(rels, tilt_angle="nearest", exposure="nearest")
             d = _cmp_table(obs["single"], cols1, [[r[i] for i in keep1] for r in w1], rels1, "create_wedge_list_sg (array inputs)")
             if d:
                 out.append(dict(kind="spec", clause="wedge-single-rows", detail=d))
-            elif "single_again" in obs:
+            elif "single_star" in obs:
+                # M-9: the file written by the single-tomogram function holds the COMPLETE table (constants included)
+                d2 = _cmp_table(obs["single_star"], cols1, [[r[i] for i in keep1] for r in w1], {cname: STAR for cname in WEDGE_COLS},
+                                "create_wedge_list_sg(output_file=...) re-read")
+                if d2:
+                    out.append(dict(kind="spec", clause="wedge-star-file", detail=d2))
+            if d is None and "single_again" in obs:
                 # G2: the second call with the very same arrays (another tomogram number) is judged as strictly as the first
                 w2 = [[r[0] + 1000] + r[1:] for r in w1]
                 d = _cmp_table(obs["single_again"], cols1, [[r[i] for i in keep1] for r in w2], rels1, "create_wedge_list_sg, second call with the same arrays")
@@ -2245,7 +2825,7 @@ def judge_wedge(case, obs, resp, resp1=None):
                 out.append(dict(kind="corr", clause="wedge-em-impl-vs-model", detail=d))
         if resp["sg2em"] is not None and "raise" not in B and "raise" not in obs.get("sg2em", {"raise": 1}):
             d = _cmp_table(obs["sg2em"], ["tomo_id", "min_tilt_angle", "max_tilt_angle"], _model_rows(resp["sg2em"]),
-                           {"tomo_id": F64, "min_tilt_angle": Fraction(1, 10 ** 5), "max_tilt_angle": Fraction(1, 10 ** 5)}, "wedge_list_sg_to_em vs model")
+                           {"tomo_id": F64, "min_tilt_angle": STAR, "max_tilt_angle": STAR}, "wedge_list_sg_to_em vs model")
             if d:
                 out.append(dict(kind="corr", clause="wedge-sg2em-impl-vs-model", detail=d))
         if resp["header"] != cols:
@@ -2310,6 +2890,7 @@ def run_g2(case):
                     else:
                         m = mdoc.remove_images(p, idx, numbered_from_1=case["from1"], output_file=q)
                     call["after"] = _canon_mdoc(m)
+                    call["trace"] = [call["after"]["rows"]]
                     call["written"] = open(q, newline="").read()
                     call["reread"] = _try(lambda: _canon_mdoc(mdoc.Mdoc(q)))
                 except Exception as e:
@@ -2324,23 +2905,15 @@ def run_g2(case):
             with open(p, "w", newline="") as f:
                 f.write(text)
 
-        def apply(m, steps):
-            for st in steps:
-                if st["k"] == "sort":
-                    m.sort_by_tilt(reset_z_value=st.get("reset", False))
-                else:
-                    m.remove_images(list(st["idxs"]), kept_only=st.get("kept_only", True))
         put(case["text"])
         for steps in (case["steps1"], case["steps2"]):
             call = {}
             try:
                 m = mdoc.Mdoc(p)
                 call["fresh"] = _canon_mdoc(m)
-                try:
-                    apply(m, steps)
-                    call["after"] = _canon_mdoc(m)
-                except Exception as e:
-                    call["after"] = _exc(e)
+                call["trace"] = []
+                failed = _apply_traced(m, steps, call["trace"])
+                call["after"] = failed or _canon_mdoc(m)
             except Exception as e:
                 call["fresh"] = _exc(e)
             out["calls"].append(call)
@@ -2358,26 +2931,24 @@ def requests_g2(case, obs):
     if case["sub"] == "indices":
         st = dict(k="remove", idxs=case["idx"], from1=(True if case["from1"] is None else case["from1"]))
         return [_mdoc_request(t, [st], False) for t in case["texts"]]
-    return [_mdoc_request(case["text"], case["steps1"], False), _mdoc_request(case["text"], case["steps2"], False),
+    calls = obs.get("calls", [])
+    orders = [(_tie_orders(c["fresh"], steps, c.get("trace", [])) if "rows" in c.get("fresh", {}) else None)
+              for c, steps in zip(calls + [{}, {}], (case["steps1"], case["steps2"]))]
+    return [_mdoc_request(case["text"], case["steps1"], False, orders[0]), _mdoc_request(case["text"], case["steps2"], False, orders[1]),
             _mdoc_request(obs.get("text2", case["text2"]), [], False)]
 
 
-def _judge_ops(P, A, steps, mod_after, what):
-    """flags / order after an op sequence: the statement evaluated independently on labels (spec), then implementation vs model (corr)"""
-    out = []
+def _judge_ops(P, A, steps, trace, mod_after, what):
+    """flags / order after an op sequence: the statement evaluated step by step on the observed tables (spec, `_replay`), then implementation
+    vs model (corr)"""
+    rp = _replay(P, steps, trace, what + ": ")
+    out = list(rp["findings"])
     if "raise" in A:
-        exp_removed, order = _expected_flags(P, steps)
-        if exp_removed is not None:
+        if rp["raise_expected"] is False:
             out.append(_raised(A, "ops-raise", f"{what}: {A['raise']}"))
         return out
-    exp_removed, order = _expected_flags(P, steps)
-    got_removed = {r["label"] for r in A["rows"] if r["removed"] == ["b", True]}
-    if exp_removed is not None and got_removed != exp_removed:
-        out.append(dict(kind="spec", clause="removed-flags", detail=f"{what}: removed labels {sorted(got_removed)}, the index subset demands {sorted(exp_removed)}"))
-    if order is not None and [r["label"] for r in A["rows"]] != order:
-        out.append(dict(kind="spec", clause="sort-order", detail=f"{what}: row order {[r['label'] for r in A['rows']]}, ascending tilt demands {order}"))
     if mod_after is None:
-        if exp_removed is not None:
+        if "final" in rp:
             out.append(dict(kind="corr", clause="ops-model-raises", detail=what))
     else:
         d = _mdoc_eq(A, mod_after)
@@ -2404,22 +2975,27 @@ def judge_g2(case, obs, resps):
             d = _mdoc_eq(P, mod["parsed"])
             if d:
                 out.append(dict(kind="corr", clause="read-vs-model", detail=d))
-            out += _judge_ops(P, call["after"], steps, mod["after"], what)
+            out += _judge_ops(P, call["after"], steps, call.get("trace", []), mod["after"], what)
             if "raise" not in call["after"] and "written" in call:
                 A = call["after"]
                 want = [r for r in A["rows"] if r["removed"] == ["b", False]]
                 R = call["reread"]
                 if not want:
-                    pass
+                    if "raise" in R:
+                        out.append(_raised(R, "written-omits-removed", f"{what}: all images are removed: the written file (header only) cannot be re-read: {R['raise']}",
+                                           all_removed=(R.get("type") == "UnboundLocalError")))
                 elif "raise" in R:
                     out.append(_raised(R, "written-omits-removed", f"{what}: written file cannot be re-read: {R['raise']}"))
                 else:
-                    exp_removed, _ = _expected_flags(P, steps)
-                    if exp_removed is not None:
-                        keep_labels = [r["label"] for r in P["rows"] if r["label"] not in exp_removed]
-                        byl = {r["label"]: r for r in P["rows"]}
-                        d = _same_object(dict(P, rows=[byl[l] for l in keep_labels]), R, ignore_flags=True)
-                        if d and not _k1_only(dict(P, rows=[byl[l] for l in keep_labels]), R):
+                    # the images the call must leave: Python indexing of the given numbers into the images of the file, in file order
+                    # (independent of the flags the implementation set)
+                    _, idxs0 = _step_kw(steps[0])
+                    n = len(P["rows"])
+                    if all(-n <= i < n for i in idxs0):
+                        gone = {i % n for i in idxs0}
+                        keep_rows = [r for j, r in enumerate(P["rows"]) if j not in gone]
+                        d = _same_object(dict(P, rows=keep_rows), R, ignore_flags=True)
+                        if d and not _k1_only(dict(P, rows=keep_rows), R):
                             out.append(dict(kind="spec", clause="written-omits-removed", detail=f"{what}: the written file must hold exactly the images not addressed: {d}"))
                 if mod["written"] is not None and call["written"] != "".join(l + "\n" for l in mod["written"]):
                     out.append(dict(kind="corr", clause="ops-written-text-vs-model", detail=_first_line_diff(call["written"], mod["written"])))
@@ -2438,7 +3014,7 @@ def judge_g2(case, obs, resps):
         d = _mdoc_eq(call["fresh"], mod["parsed"])
         if d:
             out.append(dict(kind="corr", clause="read-vs-model", detail=f"read {k + 1}: {d}"))
-        out += _judge_ops(c1["fresh"], call["after"], steps, mod["after"], f"operations on the object of read {k + 1}")
+        out += _judge_ops(c1["fresh"], call["after"], steps, call.get("trace", []), mod["after"], f"operations on the object of read {k + 1}")
     T = obs["third"]
     m3 = resps[2]["parsed"]
     if "raise" in T:
@@ -2487,13 +3063,19 @@ def _lines(text):
     return ls
 
 
-def _model_steps(steps):
-    """steps for the driver: a keyword the adapter OMITS is omitted here too (the model then uses the default the translator extracted)"""
-    return [{k: v for k, v in st.items() if not (st.get("omit_kw") and k in ("kept_only", "reset")) and k != "omit_kw"} for st in steps]
+def _model_steps(steps, orders=None):
+    """steps for the driver: a keyword the adapter OMITS is omitted here too (the model then uses the default the translator extracted); a
+    sort step of a table with equal tilt angles carries the arrangement the implementation chose (`order`), which the model's verified
+    checker arrangeOk accepts or refuses"""
+    out = [{k: v for k, v in st.items() if not (st.get("omit_kw") and k in ("kept_only", "reset")) and k != "omit_kw"} for st in steps]
+    for st, o in zip(out, orders or []):
+        if o is not None and st["k"] == "sort":
+            st["order"] = o
+    return out
 
 
-def _mdoc_request(text, steps, write_removed):
-    r = dict(op="mdoc", lines=_lines(text), steps=_model_steps(steps))
+def _mdoc_request(text, steps, write_removed, orders=None):
+    r = dict(op="mdoc", lines=_lines(text), steps=_model_steps(steps, orders))
     if write_removed is not None:
         r["write_removed"] = write_removed
     return r
@@ -2501,12 +3083,13 @@ def _mdoc_request(text, steps, write_removed):
 
 def requests(case, obs):
     if case["kind"] == "mdoc":
-        return [_mdoc_request(case["text"], case.get("steps", []), case.get("write_removed", False))]
+        orders = _tie_orders(obs["parsed"], case.get("steps", []), obs.get("trace", [])) if "rows" in obs.get("parsed", {}) else None
+        return [_mdoc_request(case["text"], case.get("steps", []), case.get("write_removed", False), orders)]
     if case["kind"] == "g2":
         return requests_g2(case, obs)
     if case["kind"] == "load" and case["sub"].endswith("_in"):
         if case["sub"] in ("tlt_in", "dose_in"):
-            r = dict(op=case["sub"], kind=case["input"])
+            r = dict(op=case["sub"], kind=("list" if case["input"] == "tuple" else case["input"]))      # a tuple takes the list branch of the type chain
             if case["sub"] == "tlt_in" and case["sort"] is not None:
                 r["sort"] = case["sort"]
             if case["input"] == "file" and case["ext"] == ".mdoc":
@@ -2597,8 +3180,8 @@ def judge(case, obs, resps):
 def classify(case, obs, finding):
     if finding.get("clause") == "mdoc-roundtrip" and finding.get("k1"):
         return "C17-K1"
-    if finding.get("clause") == "wedge-raises" and finding.get("k2"):
-        return "C17-K2"
+    if finding.get("clause") == "written-omits-removed" and finding.get("all_removed") and finding.get("kind") == "spec":
+        return "C17-K4"
     return None
 
 
@@ -2642,6 +3225,8 @@ def stats(case, obs, resps):
         if r0.get("parsed") is None and "why" in r0:
             # the model reads nothing: the code must raise ("raises"), or a named class outside the quantifier that the judge SKIPS
             d["mdoc_outside_class"] = r0["why"] + (":impl-raises" if "raise" in obs.get("parsed", {}) else ":impl-reads")
+        elif r0.get("long_float"):
+            d["mdoc_outside_class"] = "float-with-more-than-15-significant-digits:impl-only"
         elif "strict" in r0:
             d["mdoc_reader_model"] = "strict" if r0["strict"] else "extended-only (duplicate header key / float() tilt spelling)"
         P = obs.get("parsed", {})
@@ -2661,6 +3246,7 @@ def stats(case, obs, resps):
             expf = any(c[0] == "f" and "e" in c[1] for r in P["rows"] for c in r["cells"]) or any(v[0] == "f" and "e" in v[1] for _, v in P["info"])
             d["mdoc_exponent_form_float"] = expf
             d["mdoc_dose_path"] = "prior+exposure" if "dose" in obs else "absent"
+            d["mdoc_equal_tilt_angles"] = (("yes, sorted" if any(s["k"] == "sort" for s in case["steps"]) else "yes, not sorted") if _has_ties(P) else "no")
             if resps and isinstance(resps[0], dict) and "wf" in resps[0]:
                 rt = "raise" in obs.get("fresh_reread", {}) or _same_object(P, obs["fresh_reread"]) is not None
                 d["mdoc_wfb_vs_roundtrip"] = f"wfb={resps[0]['wf']},roundtrip={'differs' if rt else 'same'}"
@@ -2796,6 +3382,17 @@ def probes(rng):
         if not ok:
             bad.append(s)
     out.append(dict(name="py-float-repr", ok=not bad, detail=f"repr(float(s)) is not the canonical decimal for {bad[:3]}" if bad else "400 decimals"))
+    # the exact rounding used by the loader oracle against the two library roundings it stands for
+    bad = []
+    for _ in range(400):
+        t = f"{rng.uniform(-70000, 70000) * 10 ** -rng.randint(0, 4):.{rng.randint(0, 6)}f}"
+        fr = Fraction(t)
+        if _nearest(fr, 53) != float(t) or _nearest(fr, 24) != float(np.float32(t)):
+            bad.append(t)
+    for t, p, v in (("0.1", 24, 0.10000000149011612), ("16777217", 24, 16777216.0), ("16777219", 24, 16777220.0), ("0.1", 53, 0.1), ("-2.5", 24, -2.5)):
+        if _nearest(Fraction(t), p) != v:
+            bad.append(t)
+    out.append(dict(name="nearest-float", ok=not bad, detail=f"_nearest differs from float() / numpy.float32() for {bad[:3]}" if bad else "400 decimals + ties"))
     bad = [x for x in (rng.uniform(-90, 90) for _ in range(300)) if str(np.float64(round(x, 4))) != repr(float(round(x, 4)))]
     bad += [x for x in (1e-05, 1e16, 0.0001, -0.0, 123456789012345.0) if str(np.float64(x)) != repr(x)]
     out.append(dict(name="np-float64-str", ok=not bad, detail=str(bad[:3])))
@@ -2809,8 +3406,9 @@ LEVEL_TEXT = ("Lean 4 theorems about an executable character-level model of Mdoc
               "tied to the source by regenerated constants (section prefixes, write format strings, row filter of write, sort key, float column, dose keys and '+', "
               "Angstrom->micron factors, mean expression, wedge column list and assignments, STAR specifier, groupby/agg of sg->em, type chains and extension / "
               "file-type dispatch tables of tlt_load, total_dose_load, defocus_load) and by a differential run of the real functions against the model")
-LEVEL_NOTE = ("trusted: Lean kernel; translator anchors; harness canonicalisation of pandas cells; Python float repr of <=15-digit decimals (probed); pandas sort on distinct keys; "
-              "numeric loader outputs are compared with rel. tolerance 2e-6 (float32) / 1e-9 (float64); Starfile I/O belongs to C02; open finding C17-K1 (exponent-form floats "
-              "re-read as text)")
+LEVEL_NOTE = ("trusted: Lean kernel; translator anchors; harness canonicalisation of pandas cells; Python float repr of <=15-digit decimals (probed); the rounding of an exact "
+              "rational to the nearest float32 / float64 in the harness (`_nearest`, probed against float() and numpy.float32); computed loader outputs within relative bounds "
+              "16*2^-24 (float32 chains) / 32*2^-53 (float64 chains); Starfile I/O belongs to C02; open findings C17-K1 (exponent-form floats re-read as text) and C17-K4 "
+              "(an mdoc written with every image removed cannot be re-read)")
 TECHNIQUE = "Lean 4 proof (list induction over lines/characters, merge-sort permutation, zip/flatten indexing, field identities) + regenerated constants + differential correspondence"
 DESIGN_REF = "DESIGN.md section 4, C17"
